@@ -1,5 +1,9 @@
 """C13 — heaps: comparison-site decisions (sift/heapify), index arithmetic,
-handle table coupling / reset / growth, radix-heap bucket coupling, clear completeness."""
+handle table coupling / reset / growth, radix-heap bucket coupling, clear completeness.
+
+Reporting policy: a violation needs positive evidence (a valuation of a decision table, a CFG path, an evaluated index, a
+scenario) over constructs the rule understands completely.  Where a rule merely fails to find the shape it expects, it
+raises dtable.Undecidable unless the absence holds in a closed world (every operation on the state in question is classified)."""
 from engine import ir, dtable, match, cfg as cfgm
 from engine.ir import kids, strip_casts, const_int, ref_of
 
@@ -7,9 +11,156 @@ DH = "tlx::DAryHeap"
 AH = "tlx::DAryAddressableIntHeap"
 RH = "tlx::RadixHeap"
 
+LOOPS = ("WhileStmt", "ForStmt", "DoStmt", "CXXForRangeStmt")
+CASTS = ("ImplicitCastExpr", "CStyleCastExpr", "CXXStaticCastExpr", "CXXFunctionalCastExpr")
+RVALUE_CASTS = ("IntegralCast", "IntegralToBoolean", "IntegralToFloating", "FloatingCast", "FloatingToIntegral", "LValueToRValue")
+_NEG = {"<": ">=", ">": "<=", "<=": ">", ">=": "<", "==": "!=", "!=": "=="}
+
 
 def inst_tag(fn):
     return "%s<%s>" % (fn.record.split("::")[-1], ",".join(a.split("::")[-1][:24] for a in fn.rtargs))
+
+
+def same_node(a, b):
+    return a is not None and b is not None and a.get("id") == b.get("id") and a["k"] == b["k"]
+
+
+def inside(fn, x, root):
+    """x is a node of the subtree root (by identity of the original nodes)"""
+    return root is not None and any(y is x or same_node(y, x) for y in ir.walk(root))
+
+
+def enclosing(fn, x, kinds):
+    """(ancestor of one of the kinds, the child of it through which x is reached)"""
+    node, par = x, fn.parent(x)
+    while par is not None and par["k"] not in kinds:
+        node, par = par, fn.parent(par)
+    return par, node
+
+
+# ---------------------------------------------------------------- tree normal form for the decision tables
+def _is_empty_stmt(s):
+    return s is None or s["k"] == "NullStmt" or (s["k"] == "CompoundStmt" and all(_is_empty_stmt(c) for c in kids(s)))
+
+
+def _negate(c):
+    """!c, folded into the relational operator where there is one"""
+    s = strip_casts(c)
+    if s is not None and s["k"] == "BinaryOperator" and s.get("op") in _NEG:
+        out = dict(s)
+        out["op"] = _NEG[s["op"]]
+        return out
+    if s is not None and s["k"] == "UnaryOperator" and s.get("op") == "!" and kids(s):
+        return kids(s)[0]
+    return {"k": "UnaryOperator", "op": "!", "id": -21, "ty": "bool", "l": (c or {}).get("l"), "ch": [c]}
+
+
+def _assign_stmt(s):
+    """statement position: `t = c ? a : b` becomes if (c) t = a; else t = b;  and `t = t` disappears"""
+    if s is None:
+        return None
+    if s["k"] in ("BinaryOperator", "CXXOperatorCallExpr"):
+        b = match.binop(s, ("=",))
+        if b:
+            r = strip_casts(b[2])
+            if r is not None and r["k"] == "ConditionalOperator":
+                c, x, y = kids(r)
+                mk = lambda v: _assign_stmt(dict(s, ch=[b[1], v]))
+                return _simplify_node({"k": "IfStmt", "id": s.get("id"), "l": s.get("l"), "f": s.get("f"), "ch": [c, mk(x), mk(y)]})
+            if match.same_expr(b[1], b[2]):
+                return {"k": "NullStmt", "id": s.get("id"), "l": s.get("l")}
+    return s
+
+
+def xu_of(n):
+    """(which, target, other) if n raises/lowers target to other: t = std::max(t, o), or the node an if-form was folded into"""
+    if n is None:
+        return None
+    if n.get("xu"):
+        return n["xu"], kids(n)[0], kids(n)[1]
+    for which in ("min", "max"):
+        eu = match.extreme_update(n, which) if n["k"] in ("BinaryOperator", "CXXOperatorCallExpr", "IfStmt") else None
+        if eu:
+            return which, eu[0], eu[1]
+    return None
+
+
+def _simplify_node(n):
+    k = n["k"]
+    if k == "UnaryOperator" and n.get("op") == "!" and kids(n):
+        s = strip_casts(kids(n)[0])
+        if s is not None and s["k"] == "BinaryOperator" and s.get("op") in _NEG:
+            return _negate(s)
+    if k == "CompoundStmt":
+        n["ch"] = [_assign_stmt(c) for c in kids(n)]
+    if k in ("WhileStmt", "ForStmt", "DoStmt", "CXXForRangeStmt") and kids(n):
+        parts = list(kids(n))
+        bi = {"WhileStmt": 1, "ForStmt": 3, "DoStmt": 0, "CXXForRangeStmt": 2}[k]
+        if bi < len(parts):
+            parts[bi] = _assign_stmt(parts[bi])
+            n["ch"] = parts
+    if k == "IfStmt" and len(kids(n)) >= 3:
+        c, t, e = kids(n)[:3]
+        t, e = _assign_stmt(t), _assign_stmt(e)
+        if _is_empty_stmt(t) and not _is_empty_stmt(e):
+            c, t, e = _negate(c), e, None
+        if _is_empty_stmt(e):
+            e = None
+        n["ch"] = [c, t, e]
+        if e is None:
+            for which in ("min", "max"):
+                eu = match.extreme_update(n, which)
+                if eu:
+                    return {"k": "BinaryOperator", "op": "=", "id": n.get("id"), "l": n.get("l"), "f": n.get("f"), "ty": eu[0].get("ty"),
+                            "xu": which, "ch": [eu[0], eu[1]]}
+    return n
+
+
+def simplify(n):
+    """copy of a statement tree in a normal form for the decision tables: negations folded into relational operators, an
+    empty then-branch swapped with its else-branch, conditional assignments turned into if/else, if-forms of min/max updates
+    folded into one update node (see xu_of).  Node ids are kept, so positions and parents of the original still apply."""
+    if n is None:
+        return None
+    out = dict(n)
+    if "ch" in n:
+        out["ch"] = [simplify(c) for c in n["ch"]]
+    for key in ("init", "condvar"):
+        if isinstance(n.get(key), dict):
+            out[key] = simplify(n[key])
+    return _simplify_node(out)
+
+
+def base_atom(n):
+    """atomize fallback: None for what the interpreter decomposes itself, an auxiliary (free) atom for everything else"""
+    k = n["k"]
+    if const_int(n) is not None or k in ("CXXBoolLiteralExpr", "IntegerLiteral", "ConditionalOperator"):
+        return None
+    if k == "UnaryOperator" and n.get("op") == "!":
+        return None
+    if k == "BinaryOperator" and n.get("op") in ("&&", "||", ","):
+        return None
+    if k in CASTS and kids(n) and n.get("cast") in ("IntegralToBoolean", "PointerToBoolean", "NoOp", "IntegralCast", "LValueToRValue"):
+        return None
+    if k == "DeclRefExpr" and (n.get("ty") or "").replace("const ", "") == "bool":
+        return None
+    return ("aux:" + dtable.describe(n), False)
+
+
+def has_aux(val):
+    return any(k.startswith("aux:") or k.startswith("flag:") for k in val)
+
+
+def leaf_items(lf):
+    """(kind, node) of a leaf's events in execution order: 'expr' | 'decl' | 'loop'"""
+    return [(e[0], e[1]) for e in lf["events"] if e[0] in ("expr", "decl", "loop")]
+
+
+def leaf_nodes(lf, loops=True):
+    for kind, n in leaf_items(lf):
+        if kind == "loop" and not loops:
+            continue
+        yield from ir.walk(n)
 
 
 # ---------------------------------------------------------------- index roles
@@ -29,6 +180,46 @@ def this_call(e, names):
     c = match.call_named(e, names)
     if c and c.get("member_call") and strip_casts(kids(c)[0])["k"] == "This":
         return c
+    return None
+
+
+def fn_arity(fn):
+    try:
+        return int(fn.rtargs[1].rstrip("UuLl"))
+    except (IndexError, ValueError):
+        return None
+
+
+def expr_role(e, roles, fn=None):
+    """'hole' | 'parent' | 'child' | None for an index expression, from the roles of the variables it is built from"""
+    s = strip_casts(e)
+    if s is None:
+        return None
+    if s["k"] == "DeclRefExpr":
+        return roles.get(s["ref"]["id"])
+    c = this_call(s, ("parent",))
+    if c and len(kids(c)) > 1 and expr_role(kids(c)[1], roles, fn) == "hole":
+        return "parent"
+    c = this_call(s, ("left",))
+    if c and len(kids(c)) > 1 and expr_role(kids(c)[1], roles, fn) == "hole":
+        return "child"
+    bb = match.binop(s, ("+",))
+    if bb:
+        for x, y in ((bb[1], bb[2]), (bb[2], bb[1])):
+            if expr_role(x, roles, fn) == "child" and const_int(y) is not None:
+                return "child"
+    # written-out index arithmetic over the hole: (k - 1) / arity, arity * k + 1 + j
+    ar = fn_arity(fn) if fn is not None else None
+    loc = {y["ref"]["id"] for y in ir.walk(s) if y["k"] == "DeclRefExpr" and y["ref"].get("kind") in ("local", "param")}
+    if ar and len(loc) == 1 and roles.get(next(iter(loc))) == "hole" and not any("callee" in y and not y.get("op") for y in ir.walk(s)):
+        d = next(iter(loc))
+        vals = [eval_arith(s, {d: k}) for k in range(1, 8)]
+        if all(v is not None for v in vals):
+            if all(v == (k - 1) // ar for v, k in zip(vals, range(1, 8))):
+                return "parent"
+            off = {v - ar * k - 1 for v, k in zip(vals, range(1, 8))}
+            if len(off) == 1 and 0 <= next(iter(off)) < ar:
+                return "child"
     return None
 
 
@@ -58,33 +249,140 @@ def index_roles(fn):
                     tgt, src = ref_of(b[1]), b[2]
             if tgt is None or tgt in roles:
                 continue
-            r = None
-            c = this_call(src, ("parent",))
-            if c and roles.get(ref_of(kids(c)[1])) == "hole":
-                r = "parent"
-            c = this_call(src, ("left",))
-            if c and roles.get(ref_of(kids(c)[1])) == "hole":
-                r = "child"
-            if r is None:
-                s = strip_casts(src)
-                if roles.get(ref_of(s)) == "child":
-                    r = "child"
-                bb = match.binop(s, ("+",))
-                if bb and roles.get(ref_of(bb[1])) == "child" and const_int(bb[2]) is not None:
-                    r = "child"
-            if r:
+            r = expr_role(src, roles, fn)
+            if r in ("parent", "child"):
                 roles[tgt] = r
                 changed = True
     return roles, value_var
 
 
-def operand_role(e, roles, value_var):
+def operand_role(e, roles, value_var, fn=None):
     if ref_of(e) == value_var and strip_casts(e)["k"] == "DeclRefExpr":
         return "value", None
     hi = heap_index(e)
     if hi is not None and ref_of(hi) in roles:
         return roles[ref_of(hi)], ref_of(hi)
+    if hi is not None and ref_of(hi) is None:
+        r = expr_role(hi, roles, fn)
+        if r:
+            return r, None
     return None, None
+
+
+def is_cmp(n):
+    fc = match.functor_call(n) if n is not None and "callee" in n else None
+    if fc and match.this_field(fc[0]) == "cmp_" and len(fc[1]) == 2:
+        return fc[1]
+    return None
+
+
+def select_decision(ck, fn, x, v1, v2, roles, value_var):
+    """the comparison x = cmp(heap_[v1], heap_[v2]) of two children: tabulates the body of the enclosing scan loop.
+    True if a violation was reported"""
+    if v1 is None or v2 is None or v1 == v2:
+        raise dtable.Undecidable("%s: comparison of two children that are not held in two index variables: %s" % (fn.nloc(x), dtable.describe(x)))
+    loop, via = enclosing(fn, x, LOOPS)
+    if loop is None:
+        raise dtable.Undecidable("%s: comparison of two children outside a scan loop" % fn.nloc(x))
+    body = match.loop_parts(loop)[3] if loop["k"] != "CXXForRangeStmt" else kids(loop)[2]
+    if not same_node(via, body):
+        raise dtable.Undecidable("%s: comparison of two children in the control part of a loop" % fn.nloc(x))
+    name = {v1: "a", v2: "b"}
+
+    def atomize(n, run):
+        ops = is_cmp(n)
+        if ops:
+            ids = [ref_of(heap_index(o)) if heap_index(o) is not None else None for o in ops]
+            if all(i in name for i in ids) and ids[0] != ids[1]:
+                return ("lt(%s,%s)" % (name[ids[0]], name[ids[1]]), False)
+        return base_atom(n)
+
+    leaves = dtable.explore(simplify(body), atomize, fn)
+
+    def moves(lf):
+        """assignments between the two index variables on this leaf; None in the list = an assignment of another form"""
+        out = []
+        for n in leaf_nodes(lf):
+            b = match.binop(n, ("=",)) if n["k"] in ("BinaryOperator", "CXXOperatorCallExpr") else None
+            if b and strip_casts(b[1])["k"] == "DeclRefExpr" and ref_of(b[1]) in name:
+                out.append((ref_of(b[1]), ref_of(b[2])) if ref_of(b[2]) in name and ref_of(b[2]) != ref_of(b[1]) else None)
+        return out
+    targets = {m[0] for lf in leaves for m in moves(lf) if m}
+    if len(targets) != 1:
+        raise dtable.Undecidable("%s: cannot tell which index holds the selected child after %s" % (fn.nloc(x), dtable.describe(x)))
+    run_v = next(iter(targets))                 # the running minimum; the other one scans
+    oth_v = v1 if run_v == v2 else v2
+    a_or, a_ro = "lt(%s,%s)" % (name[oth_v], name[run_v]), "lt(%s,%s)" % (name[run_v], name[oth_v])
+    atoms = list(dtable.atoms_of(leaves))
+    for a in (a_or, a_ro):
+        if a not in atoms:
+            atoms.append(a)
+    rows = [(v, lf) for v, lf in dtable.table(leaves, lambda v: not (v.get(a_or) and v.get(a_ro)), atoms)
+            if a_or in lf["val"] or a_ro in lf["val"]]          # elsewhere the comparator was not consulted: no decision taken
+    groups = {}
+    for v, lf in rows:
+        groups.setdefault(tuple(sorted((k, b_) for k, b_ in v.items() if k not in (a_or, a_ro))), []).append((v, lf))
+    if all(len({(run_v, oth_v) in moves(lf) for v, lf in grp}) == 1 for grp in groups.values()):
+        raise dtable.Undecidable("%s: the selection does not depend on the comparison %s" % (fn.nloc(x), dtable.describe(x)))
+    for grp in groups.values():
+        if len({(run_v, oth_v) in moves(lf) for v, lf in grp}) == 1:
+            continue                             # under these side conditions no selection is made either way
+        for v, lf in grp:
+            mv = moves(lf)
+            sel = (run_v, oth_v) in mv
+            wrong = None
+            if v[a_or] and not sel:
+                wrong = "a strictly smaller child is passed over"
+            elif v[a_ro] and sel:
+                wrong = "the selection moves to a strictly larger child"
+            if wrong is None:
+                continue
+            if None in mv or (oth_v, run_v) in mv:
+                raise dtable.Undecidable("%s: selection of the smaller child not understood (other assignments to the index variables)" % fn.nloc(x))
+            ck.violation("HEAP-DECISION", fn.qname, "%s:select" % fn.name,
+                         "child selection does not keep the smaller child: %s in row %s of %s (a, b = its operands)" % (
+                             wrong, dtable.fmt_val({k: b_ for k, b_ in v.items() if k in (a_or, a_ro)}), dtable.describe(x)), fn.nloc(x))
+            return True
+    return False
+
+
+def branch_effect(st):
+    """(stops, moves) of a branch"""
+    if st is None:
+        return False, False
+    stops = any(y["k"] in ("BreakStmt", "ReturnStmt") for y in ir.walk(st))
+    mvs = any(heap_index(match.binop(y, ("=",))[1]) is not None for y in ir.walk(st) if match.binop(y, ("=",)))
+    return stops, mvs
+
+
+def controlling(fn, x):
+    """(statement, condition expression, pre) that decides on the comparison x; a never-reassigned bool local that holds
+    the result and is tested by the very next statement counts as that statement's condition"""
+    par, via = enclosing(fn, x, ("IfStmt", "WhileStmt", "ForStmt", "DoStmt", "CXXForRangeStmt", "VarDecl"))
+    pre = None
+    if par is not None and par["k"] == "VarDecl":
+        did = par["did"]
+        ds = fn.parent(par)
+        comp = fn.parent(ds) if ds is not None else None
+        writes = [y for y in ir.walk(fn.body) if (match.binop(y) and match.binop(y)[0].endswith("=") and match.binop(y)[0] not in ("==", "!=", "<=", ">=")
+                                                  and ref_of(match.binop(y)[1]) == did) or (match.unop(y, ("++", "--")) and ref_of(match.unop(y, ("++", "--"))[1]) == did)]
+        uses = [y for y in ir.walk(fn.body) if y["k"] == "DeclRefExpr" and y["ref"]["id"] == did]
+        if (par.get("ty") or "").replace("const ", "") != "bool" or writes or len(uses) != 1 or comp is None or comp["k"] != "CompoundStmt":
+            raise dtable.Undecidable("%s: result of the comparison is stored and used in a way that is not understood" % fn.nloc(x))
+        sibs = [c for c in kids(comp) if c is not None]
+        i = [j for j, c in enumerate(sibs) if same_node(c, ds)]
+        nxt = sibs[i[0] + 1] if i and i[0] + 1 < len(sibs) else None
+        if nxt is None or nxt["k"] not in ("IfStmt", "WhileStmt") or not inside(fn, uses[0], kids(nxt)[0]):
+            raise dtable.Undecidable("%s: result of the comparison is not tested by the next statement" % fn.nloc(x))
+        init = kids(par)[0]
+        pre = lambda r, did=did, init=init: r.env.__setitem__(did, init)
+        par, x = nxt, uses[0]
+    if par is None:
+        raise dtable.Undecidable("%s: comparison without controlling statement" % fn.nloc(x))
+    cond = kids(par)[0] if par["k"] in ("IfStmt", "WhileStmt") else (kids(par)[1] if par["k"] in ("ForStmt", "DoStmt") else None)
+    if cond is None or not inside(fn, x, cond):
+        raise dtable.Undecidable("%s: the comparison is not part of the condition of the statement that encloses it" % fn.nloc(x))
+    return par, cond, pre
 
 
 def check_decisions(ck, fn):
@@ -94,50 +392,35 @@ def check_decisions(ck, fn):
     sites = 0
     bad = False
     for x in ir.walk(fn.body):
-        fc = match.functor_call(x) if "callee" in x else None
-        if not (fc and match.this_field(fc[0]) == "cmp_" and len(fc[1]) == 2):
+        ops = is_cmp(x)
+        if not ops:
             continue
-        (r1, v1), (r2, v2) = operand_role(fc[1][0], roles, value_var), operand_role(fc[1][1], roles, value_var)
+        (r1, v1), (r2, v2) = operand_role(ops[0], roles, value_var, fn), operand_role(ops[1], roles, value_var, fn)
         if r1 is None or r2 is None:
             raise dtable.Undecidable("%s: comparator operands not understood: %s" % (fn.nloc(x), dtable.describe(x)))
         sites += 1
-        # controlling construct
-        node, par = x, fn.parent(x)
-        while par is not None and par["k"] not in ("IfStmt", "WhileStmt", "ForStmt", "DoStmt"):
-            node, par = par, fn.parent(par)
-        ck.require(par is not None, "%s: comparison without controlling statement" % fn.nloc(x))
         if (r1, r2) == ("child", "child"):
-            # select the smaller child: if (cmp(heap_[a], heap_[b])) b = a;
-            okk = False
-            if par["k"] == "IfStmt":
-                for y in ir.walk(kids(par)[1]):
-                    b = match.binop(y, ("=",))
-                    if b and ref_of(b[1]) == v2 and ref_of(b[2]) == v1:
-                        okk = True
-            if not okk:
-                ck.violation("HEAP-DECISION", fn.qname, "%s:select" % fn.name,
-                             "child selection does not keep the smaller child: cmp(heap_[a], heap_[b]) must lead to b = a (%s)" % dtable.describe(par if par["k"] != "IfStmt" else kids(par)[0]), fn.nloc(x))
-                bad = True
+            # select the smaller child: cmp(heap_[a], heap_[b]) must lead to b = a, cmp(heap_[b], heap_[a]) must not
+            bad = select_decision(ck, fn, x, v1, v2, roles, value_var) or bad
             continue
         pair = {("child", "value"): ("sink", False), ("value", "child"): ("sink", True),
                 ("parent", "value"): ("rise", True), ("value", "parent"): ("rise", False)}.get((r1, r2))
         if pair is None:
             raise dtable.Undecidable("%s: unexpected comparison roles %s/%s" % (fn.nloc(x), r1, r2))
         kind, swapped = pair
-        # decision value as a function of the two orientations
-        cond = kids(par)[0] if par["k"] in ("IfStmt", "WhileStmt") else (kids(par)[1] if par["k"] in ("ForStmt", "DoStmt") else None)
+        par, cond, pre = controlling(fn, x)
 
         def atomize(n, run, fn=fn):
-            f2 = match.functor_call(n) if "callee" in n else None
-            if f2 and match.this_field(f2[0]) == "cmp_" and len(f2[1]) == 2:
-                a, _ = operand_role(f2[1][0], roles, value_var)
-                b, _ = operand_role(f2[1][1], roles, value_var)
+            o2 = is_cmp(n)
+            if o2:
+                a, _ = operand_role(o2[0], roles, value_var, fn)
+                b, _ = operand_role(o2[1], roles, value_var, fn)
                 return ("cmp(%s,%s)" % (a, b), False)
             b = match.binop(n, (">", "<", "<=", ">=", "!=", "=="))
             if b and strip_casts(n)["k"] == "BinaryOperator":
                 return ("aux:" + dtable.describe(n), False)
             return None
-        leaves = dtable.explore(cond, atomize, fn, as_expr=True)
+        leaves = dtable.explore(cond, atomize, fn, as_expr=True, pre=pre)
         other, val = ("child" if kind == "sink" else "parent"), "value"
         a_small = "cmp(%s,%s)" % (other, val)       # the other element is strictly smaller than value
         a_large = "cmp(%s,%s)" % (val, other)
@@ -147,28 +430,48 @@ def check_decisions(ck, fn):
                 atoms.append(a)
         # what does a true condition mean: move or stop?
         if par["k"] == "IfStmt":
-            t, e = kids(par)[1], kids(par)[2]
-            then_stops = t is not None and any(y["k"] in ("BreakStmt", "ReturnStmt") for y in ir.walk(t))
-            then_moves = t is not None and any(heap_index(match.binop(y, ("=",))[1]) is not None for y in ir.walk(t) if match.binop(y, ("=",)))
-            if then_stops == then_moves:
+            sp = simplify(par)
+            if sp["k"] != "IfStmt":
                 raise dtable.Undecidable("%s: cannot tell whether the branch moves or stops" % fn.nloc(par))
-            true_moves = then_moves
+            flipped = _is_empty_stmt(kids(par)[1]) and not _is_empty_stmt(kids(par)[2])
+            (t_stop, t_move), (e_stop, e_move) = branch_effect(kids(sp)[1]), branch_effect(kids(sp)[2])
+            if t_move and not t_stop and not e_move:
+                true_moves = True
+            elif t_stop and not t_move:
+                true_moves = False
+            else:
+                raise dtable.Undecidable("%s: cannot tell whether the branch moves or stops" % fn.nloc(par))
+            if flipped:
+                true_moves = not true_moves     # simplify() negated the condition; the table below uses the original one
         else:
             true_moves = True
-        for v, lf in dtable.table(leaves, lambda v: not (v.get(a_small) and v.get(a_large)), atoms):
-            if any(k.startswith("aux:") and not val_ for k, val_ in v.items()):
-                continue          # auxiliary range conditions false: no decision taken
-            moves = lf["result"] == true_moves
-            if kind == "sink":
-                req, forb = v[a_small], v[a_large]     # child < value: must sink; value < child: must not
-            else:
-                req, forb = v[a_large], v[a_small]     # value < parent: must rise; parent < value: must not
-            if (req and not moves) or (forb and moves):
-                ck.violation("HEAP-DECISION", fn.qname, "%s:%s:%s" % (fn.name, kind, dtable.fmt_val({k: x_ for k, x_ in v.items() if not k.startswith("aux:")})),
-                             "%s decision wrong: hole %s although %s" % (kind, "moves" if moves else "stays",
-                             ("the value is strictly smaller than the %s" % other) if (kind == "rise") == req else
-                             ("the %s is strictly smaller than the value" % other) if kind == "sink" and req else "the order forbids it"), fn.nloc(x))
-                bad = True
+        rows = list(dtable.table(leaves, lambda v: not (v.get(a_small) and v.get(a_large)), atoms))
+        if any(k.startswith("flag:") for v, lf in rows for k in v):
+            raise dtable.Undecidable("%s: the condition depends on a flag that is not understood" % fn.nloc(x))
+        # rows are judged per valuation of the auxiliary (range) conditions: where the outcome does not depend on the comparator
+        # no decision is taken (index out of range ...)
+        groups = {}
+        for v, lf in rows:
+            groups.setdefault(tuple(sorted((k, b_) for k, b_ in v.items() if k.startswith("aux:"))), []).append((v, lf))
+        if all(len({lf["result"] for v, lf in grp}) == 1 for grp in groups.values()):
+            raise dtable.Undecidable("%s: the outcome of the condition does not depend on the comparison %s" % (fn.nloc(x), dtable.describe(x)))
+        for aux_key, grp in groups.items():
+            if len({lf["result"] for v, lf in grp}) == 1:
+                continue
+            for v, lf in grp:
+                moves = lf["result"] == true_moves
+                if kind == "sink":
+                    req, forb = v[a_small], v[a_large]     # child < value: must sink; value < child: must not
+                else:
+                    req, forb = v[a_large], v[a_small]     # value < parent: must rise; parent < value: must not
+                if (req and not moves) or (forb and moves):
+                    ck.violation("HEAP-DECISION", fn.qname, "%s:%s:%s" % (fn.name, kind, dtable.fmt_val({k: x_ for k, x_ in v.items() if not k.startswith("aux:")})),
+                                 "%s decision wrong: hole %s although %s" % (kind, "moves" if moves else "stays",
+                                 ("the value is strictly smaller than the %s" % other) if (kind == "rise") == req else
+                                 ("the %s is strictly smaller than the value" % other) if kind == "sink" and req else "the order forbids it"), fn.nloc(x))
+                    bad = True
+                    break
+            if bad:
                 break
     ck.require(sites >= 2 or fn.name == "sift_up", "%s: too few comparison sites (%d)" % (fn.loc, sites))
     if not bad:
@@ -176,8 +479,13 @@ def check_decisions(ck, fn):
 
 
 # ---------------------------------------------------------------- index arithmetic
-def eval_arith(e, env):
+def eval_arith(e, env, hook=None):
+    """integer value of an index expression under env (decl id -> value); hook(e) may supply values of calls"""
     e = strip_casts(e)
+    if e is None:
+        return None
+    if hook is not None and hook(e) is not None:
+        return hook(e)
     c = const_int(e)
     if c is not None and e["k"] != "DeclRefExpr":
         return c
@@ -188,49 +496,71 @@ def eval_arith(e, env):
             return c
     if e["k"] == "MemberExpr" and c is not None:
         return c
-    b = match.binop(e, ("+", "-", "*", "/", ">>", "<<"))
+    if e["k"] == "ConditionalOperator":
+        t = eval_arith(kids(e)[0], env, hook)
+        return None if t is None else eval_arith(kids(e)[1] if t else kids(e)[2], env, hook)
+    if e["k"] == "UnaryOperator" and e.get("op") in ("-", "!", "+") and kids(e):
+        v = eval_arith(kids(e)[0], env, hook)
+        return None if v is None else {"-": -v, "!": int(not v), "+": v}[e["op"]]
+    b = match.binop(e, ("+", "-", "*", "/", "%", ">>", "<<", "<", ">", "<=", ">=", "==", "!=", "&&", "||")) if e["k"] == "BinaryOperator" else None
     if b:
-        l, r = eval_arith(b[1], env), eval_arith(b[2], env)
+        l, r = eval_arith(b[1], env, hook), eval_arith(b[2], env, hook)
         if l is None or r is None:
             return None
-        return {"+": l + r, "-": l - r, "*": l * r, "/": l // r if r else None, ">>": l >> r, "<<": l << r}[b[0]]
+        if b[0] in ("/", "%") and (r == 0 or l < 0 or r < 0):
+            return None
+        if b[0] in (">>", "<<") and (r < 0 or l < 0):
+            return None
+        return {"+": lambda: l + r, "-": lambda: l - r, "*": lambda: l * r, "/": lambda: l // r, "%": lambda: l % r, ">>": lambda: l >> r,
+                "<<": lambda: l << r, "<": lambda: int(l < r), ">": lambda: int(l > r), "<=": lambda: int(l <= r), ">=": lambda: int(l >= r),
+                "==": lambda: int(l == r), "!=": lambda: int(l != r), "&&": lambda: int(bool(l) and bool(r)), "||": lambda: int(bool(l) or bool(r))}[b[0]]()
     return None
+
+
+def returned_expr(f):
+    """the value a small function returns, as one expression over its parameters"""
+    e = dtable.stmts_as_expr([x for x in kids(f.body) if x is not None]) if f.body is not None else None
+    if e is None:
+        raise dtable.Undecidable("%s: %s() is not a plain index computation (declarations, then returns)" % (f.loc, f.name))
+    return e
 
 
 def check_index_inverse(ck, tu, rec):
     lefts = tu.find(name="left", record=rec)
     for lf in lefts:
-        pf = [f for f in tu.find(name="parent", record=rec) if f.rtargs == lf.rtargs]
-        ck.require(len(pf) == 1, "%s: parent() of the same instantiation not found" % lf.loc)
-        pf = pf[0]
-        arity = int(lf.rtargs[1].rstrip("UuLl"))
-        le = kids([x for x in ir.walk(lf.body) if x["k"] == "ReturnStmt"][0])[0]
-        pe = kids([x for x in ir.walk(pf.body) if x["k"] == "ReturnStmt"][0])[0]
-        okall = True
-        for k in range(0, 40):
-            l = eval_arith(le, {lf.params[0]["did"]: k})
-            if l is None:
-                raise dtable.Undecidable("%s: left() is not plain index arithmetic" % lf.loc)
-            want = arity * k + 1
-            for j in range(arity):
-                p = eval_arith(pe, {pf.params[0]["did"]: l + j})
-                if p is None:
-                    raise dtable.Undecidable("%s: parent() is not plain index arithmetic" % pf.loc)
-                if p != k or l != want:
-                    ck.violation("INDEX-INVERSE", lf.qname, "arity=%d" % arity,
-                                 "left(%d)=%s, parent(%d)=%s: children of node k must be arity*k+1..arity*k+arity and parent their inverse" % (k, l, l + j, p), lf.loc)
-                    okall = False
+        def one(lf=lf):
+            pf = [f for f in tu.find(name="parent", record=rec) if f.rtargs == lf.rtargs]
+            ck.require(len(pf) == 1, "%s: parent() of the same instantiation not found" % lf.loc)
+            pf = pf[0]
+            arity = fn_arity(lf)
+            ck.require(arity and len(lf.params) == 1 and len(pf.params) == 1, "%s: left()/parent() signature not understood" % lf.loc)
+            le, pe = returned_expr(lf), returned_expr(pf)
+            okall = True
+            for k in range(0, 40):
+                l = eval_arith(le, {lf.params[0]["did"]: k})
+                if l is None:
+                    raise dtable.Undecidable("%s: left() is not plain index arithmetic" % lf.loc)
+                want = arity * k + 1
+                for j in range(arity):
+                    p = eval_arith(pe, {pf.params[0]["did"]: l + j}) if l + j >= 1 else k
+                    if p is None:
+                        raise dtable.Undecidable("%s: parent() is not plain index arithmetic" % pf.loc)
+                    if p != k or l != want:
+                        ck.violation("INDEX-INVERSE", lf.qname, "arity=%d" % arity,
+                                     "left(%d)=%s, parent(%d)=%s: children of node k must be arity*k+1..arity*k+arity and parent their inverse" % (k, l, l + j, p), lf.loc)
+                        okall = False
+                        break
+                if not okall:
                     break
-            if not okall:
-                break
-        if okall:
-            ck.ok("INDEX-INVERSE", inst_tag(lf), "parent(left(k)+j) == k for k<40, j<%d; left(k) == %d*k+1" % (arity, arity))
+            if okall:
+                ck.ok("INDEX-INVERSE", inst_tag(lf), "parent(left(k)+j) == k for k<40, j<%d; left(k) == %d*k+1" % (arity, arity))
+        ck.guarded(one)
 
 
 # ---------------------------------------------------------------- handle table
 def handles_store(x):
     """(key_expr, value_expr) if x is handles_[K] = V"""
-    b = match.binop(x, ("=",))
+    b = match.binop(x, ("=",)) if x is not None and not x.get("xu") else None
     if b:
         p = match.index_parts(b[1])
         if p and match.this_field(p[0]) == "handles_":
@@ -253,127 +583,344 @@ def is_not_present(e):
     return bool(match.call_named(e, ("not_present",)))
 
 
-def stmt_list(fn):
-    """all statements in source order with their enclosing compound (for adjacency tests)"""
+def heap_size(e):
+    """e is heap_.size() or this->size()"""
+    c = match.call_named(match.strip_conv(e), ("size",))
+    if c is None or not c.get("member_call") or not kids(c):
+        return False
+    o = strip_casts(kids(c)[0])
+    return match.this_field(o) == "heap_" or o["k"] == "This"
+
+
+def heap_last(e):
+    """e denotes the last element of heap_: heap_.back() | heap_[heap_.size() - 1]"""
+    k = strip_casts(e)
+    bk = match.call_named(k, ("back",))
+    if bk and kids(bk) and match.this_field(kids(bk)[0]) == "heap_":
+        return True
+    hi = heap_index(k)
+    b = match.binop(hi, ("-",)) if hi is not None else None
+    return bool(b and heap_size(b[1]) and const_int(b[2]) == 1)
+
+
+def heap_ops(body):
+    stores = [(x, heap_store(x)) for x in ir.walk(body) if heap_store(x)]
+    swaps = [x for x in ir.walk(body) if match.call_named(x, ("swap", "iter_swap")) and any(heap_index(a) is not None or heap_last(a) for a in kids(x))]
+    pushes = [x for x in ir.walk(body) if match.call_named(x, ("push_back", "emplace_back")) and x.get("member_call") and match.this_field(kids(x)[0]) == "heap_"]
+    pops = [x for x in ir.walk(body) if match.call_named(x, ("pop_back",)) and x.get("member_call") and match.this_field(kids(x)[0]) == "heap_"]
+    return stores, swaps, pushes, pops
+
+
+def this_callees(tu, fn):
+    """(call node, callee Fn) for the member functions of the same class that fn calls on *this"""
+    for c in ir.walk(fn.body):
+        if "callee" in c and c.get("member_call") and kids(c) and strip_casts(kids(c)[0])["k"] == "This":
+            cal = tu.by_did.get(c["callee"].get("did"))
+            if cal is not None and cal.body is not None and cal.did != fn.did and cal.record == fn.record:
+                yield c, cal
+
+
+def is_handle_setter(cal):
+    """a helper that only records handles: no loops, no change of heap_ itself"""
+    if any(y["k"] in LOOPS for y in ir.walk(cal.body)):
+        return False
+    st, sw, pu, po = heap_ops(cal.body)
+    return not (st or sw or pu or po) and any(handles_store(y) for y in ir.walk(cal.body))
+
+
+def handle_stores(tu, fn):
+    """[(node whose CFG position counts, key expr, value expr, id)] for handles_[K] = V in fn and, with the parameters
+    replaced by the arguments, in the handle-setting helpers it calls"""
     out = []
-    for x in ir.walk(fn.body):
-        if x["k"] == "CompoundStmt":
-            ch = [c for c in kids(x) if c is not None]
-            # split comma expressions
-            flat = []
-            for c in ch:
-                b = match.binop(c, (",",))
-                if b and strip_casts(c)["k"] == "BinaryOperator":
-                    flat += [b[1], b[2]]
-                else:
-                    flat.append(c)
-            out.append(flat)
+    for y in ir.walk(fn.body):
+        hs = handles_store(y)
+        if hs:
+            out.append((y, hs[0], hs[1], ("own", y["id"])))
+    for c, cal in this_callees(tu, fn):
+        if is_handle_setter(cal):
+            sub = {p_["did"]: a for p_, a in zip(cal.params, kids(c)[1:])}
+            for y in ir.walk(cal.body):
+                hs = handles_store(y)
+                if hs:
+                    out.append((c, dtable._subst(hs[0], sub), dtable._subst(hs[1], sub), (c["id"], y["id"])))
     return out
 
 
+def classify_handles_mention(fn, m):
+    """what an occurrence of this->handles_ does: 'read' | 'grow' | 'fill' | 'store' | None (not understood)"""
+    p = fn.parent(m)
+    if p is None:
+        return None
+    if p["k"] == "CXXForRangeStmt":
+        return "fill" if match.fill_all(p) else None
+    if "callee" in p and p.get("member_call") and kids(p) and same_node(kids(p)[0], m) and not p.get("op"):
+        nm = p["callee"]["name"]
+        if nm in ("size", "empty", "capacity", "max_size"):
+            return "read"
+        if nm in ("resize", "reserve", "shrink_to_fit"):
+            return "grow"
+        if nm == "assign":
+            return "fill" if match.fill_all(p) else None
+        if nm in ("begin", "end"):
+            q = fn.parent(p)
+            while q is not None and q["k"] in CASTS + ("CXXConstructExpr",):
+                q = fn.parent(q)
+            fa = match.fill_all(q) if q is not None else None
+            return "fill" if fa and match.this_field(fa[0]) == "handles_" else None
+        if nm != "at":
+            return None
+    ip = match.index_parts(p)
+    if not (ip and same_node(strip_casts(ip[0]), m)):
+        return None
+    q, node = fn.parent(p), p
+    while q is not None and q["k"] == "ConditionalOperator" and not same_node(kids(q)[0], node):
+        q, node = fn.parent(q), q
+    if q is None:
+        return None
+    if q["k"] in CASTS:
+        return "read" if q.get("cast") in RVALUE_CASTS else None
+    if q["k"] in ("BinaryOperator", "CompoundAssignOperator"):
+        op = q.get("op")
+        if op == "=" or q["k"] == "CompoundAssignOperator":
+            if same_node(kids(q)[0], node):
+                return "store" if op == "=" else None
+            return "read"
+        return "read"
+    if q["k"] == "VarDecl":
+        return None if (q.get("isref") or (q.get("ty") or "").rstrip().endswith(("&", "*"))) else "read"
+    if q["k"] in ("IfStmt", "WhileStmt", "ForStmt", "DoStmt"):
+        return "read"
+    if q["k"] == "ReturnStmt":
+        return None if (fn.d.get("ret") or "").rstrip().endswith("&") else "read"
+    if "callee" in q:
+        if q.get("op") == "[]" and len(kids(q)) == 2 and same_node(kids(q)[1], node):
+            return "read"
+        if q.get("op") in ("==", "!=", "<", ">", "<=", ">=", "+", "-", "*", "/", "%"):
+            return "read"
+        cal = fn.tu.by_did.get(q["callee"].get("did"))
+        if cal is not None:
+            args = kids(q)[1:] if q.get("member_call") else kids(q)
+            for a, prm in zip(args, cal.params):
+                if same_node(a, node):
+                    return None if (prm.get("ty") or "").rstrip().endswith("&") and not (prm.get("ty") or "").startswith("const ") else "read"
+    return None
+
+
+def callee_handle_kinds(tu, cal, depth=0, seen=None):
+    """how a member function writes handles_: subset of {'pos', 'np', 'unknown'}"""
+    seen = seen if seen is not None else set()
+    if cal.did in seen or depth > 4:
+        return set()
+    seen.add(cal.did)
+    out = set()
+    for y in ir.walk(cal.body):
+        hs = handles_store(y)
+        if hs:
+            out.add("np" if is_not_present(hs[1]) else "pos")
+        fa = match.fill_all(y)
+        if fa and match.this_field(fa[0]) == "handles_":
+            out.add("np" if is_not_present(fa[1]) else "unknown")
+        if y["k"] == "MemberExpr" and match.this_field(y) == "handles_" and classify_handles_mention(cal, y) is None:
+            out.add("unknown")
+    for c, c2 in this_callees(tu, cal):
+        out |= callee_handle_kinds(tu, c2, depth + 1, seen)
+    return out
+
+
+def find_reindex(fn):
+    """(loop, handle store, first index) of a re-index loop: for every i in [first, heap_.size()): handles_[heap_[i]] = i;
+    it is a full one if first == 0"""
+    for l in match.loops_in(fn.body):
+        if l["k"] not in ("ForStmt", "WhileStmt"):
+            continue
+        init, cond, inc, body = match.loop_parts(l)
+        # the counter: the one local of the condition; the condition is evaluated for heaps of 1..5 elements below
+        cv = {y["ref"]["id"] for y in ir.walk(cond) if y["k"] == "DeclRefExpr" and y["ref"].get("kind") == "local"} if cond is not None else set()
+        if len(cv) != 1 or not any(heap_size(y) for y in ir.walk(cond)):
+            continue
+        var = next(iter(cv))
+        runs = [[eval_arith(cond, {var: i}, lambda e, n=n: n if heap_size(e) else None) for i in range(n + 1)] for n in range(1, 6)]
+        if any(v is None for r in runs for v in r):
+            continue
+        whole = all(all(r[:-1]) and not r[-1] for r in runs)      # true for every index of the heap, false behind it
+        decl = [y for y in ir.walk(fn.body) if y["k"] == "VarDecl" and y["did"] == var and kids(y) and const_int(kids(y)[0]) is not None]
+        if not decl:
+            continue
+        start = const_int(kids(decl[0])[0]) if whole else -1
+        if l["k"] == "WhileStmt":
+            # the counter starts at 0 when the loop is reached and only the loop advances it
+            ds = fn.parent(decl[0])
+            comp = fn.parent(ds) if ds is not None else None
+            sibs = [c for c in kids(comp) if c is not None] if comp is not None and comp["k"] == "CompoundStmt" else []
+            i = [j for j, c in enumerate(sibs) if same_node(c, ds)]
+            if not (i and i[0] + 1 < len(sibs) and same_node(sibs[i[0] + 1], l)):
+                continue
+        writes = []
+        for y in ir.walk(fn.body):
+            bb = match.binop(y)
+            if bb and bb[0].endswith("=") and bb[0] not in ("==", "!=", "<=", ">=") and ref_of(bb[1]) == var and strip_casts(bb[1])["k"] == "DeclRefExpr":
+                writes.append(y)
+            u = match.unop(y, ("++", "--"))
+            if u and ref_of(u[1]) == var:
+                writes.append(y)
+        steps = [y for y in writes if (match.unop(y, ("++",)) or (match.binop(y, ("+=",)) and const_int(match.binop(y, ("+=",))[2]) == 1)
+                                       or (match.binop(y, ("=",)) and match.binop(match.binop(y, ("=",))[2], ("+",)) and
+                                           ref_of(match.binop(match.binop(y, ("=",))[2], ("+",))[1]) == var and const_int(match.binop(match.binop(y, ("=",))[2], ("+",))[2]) == 1))]
+        if len(writes) != 1 or len(steps) != 1 or not inside(fn, writes[0], l):
+            continue
+        if any(y["k"] in ("ContinueStmt", "BreakStmt", "ReturnStmt") for y in ir.walk(body)):
+            continue
+        for y in ir.walk(body):
+            hs = handles_store(y)
+            if hs:
+                hk = heap_index(hs[0])
+                if hk is not None and ref_of(hk) == var and ref_of(hs[1]) == var:
+                    return l, y, start
+    # for (key : heap_) handles_[key] = pos++;   with pos = 0 declared right in front of the loop
+    for l in ir.walk(fn.body):
+        if l["k"] != "CXXForRangeStmt" or len(kids(l)) < 3 or match.this_field(kids(l)[0]) != "heap_" or kids(l)[1] is None:
+            continue
+        var, body = kids(l)[1].get("did"), kids(l)[2]
+        if any(y["k"] in ("ContinueStmt", "BreakStmt", "ReturnStmt") for y in ir.walk(body)):
+            continue
+        stmts = [c for c in (kids(body) if body is not None and body["k"] == "CompoundStmt" else [body]) if c is not None]
+        hs = handles_store(stmts[0]) if stmts else None
+        if not hs or ref_of(hs[0]) != var:
+            continue
+        u = match.unop(hs[1], ("++",))
+        if len(stmts) == 1 and u and u[2] and ref_of(u[1]) is not None:
+            cnt = ref_of(u[1])
+        elif len(stmts) == 2 and ref_of(hs[1]) is not None and (
+                (match.unop(stmts[1], ("++",)) and ref_of(match.unop(stmts[1], ("++",))[1]) == ref_of(hs[1])) or
+                (match.binop(stmts[1], ("+=",)) and ref_of(match.binop(stmts[1], ("+=",))[1]) == ref_of(hs[1]) and const_int(match.binop(stmts[1], ("+=",))[2]) == 1)):
+            cnt = ref_of(hs[1])
+        else:
+            continue
+        decl = [y for y in ir.walk(fn.body) if y["k"] == "VarDecl" and y["did"] == cnt and kids(y) and const_int(kids(y)[0]) is not None]
+        ds = fn.parent(decl[0]) if decl else None
+        comp = fn.parent(ds) if ds is not None else None
+        sibs = [c for c in kids(comp) if c is not None] if comp is not None and comp["k"] == "CompoundStmt" else []
+        i = [j for j, c in enumerate(sibs) if same_node(c, ds)]
+        if not (i and i[0] + 1 < len(sibs) and same_node(sibs[i[0] + 1], l)):
+            continue
+        writes = 0
+        for y in ir.walk(fn.body):
+            bb = match.binop(y)
+            if bb and bb[0].endswith("=") and bb[0] not in ("==", "!=", "<=", ">=") and ref_of(bb[1]) == cnt and strip_casts(bb[1])["k"] == "DeclRefExpr":
+                writes += 1
+            uu = match.unop(y, ("++", "--"))
+            if uu and ref_of(uu[1]) == cnt:
+                writes += 1
+        if writes == 1:
+            return l, stmts[0], const_int(kids(decl[0])[0])
+    return None, None, None
+
+
 def check_handle_coupled(ck, fn):
-    """every store heap_[I] = V is adjacent to handles_[heap_[I] | V] = I, unless a full re-index loop post-dominates"""
-    stores = [(x, heap_store(x)) for x in ir.walk(fn.body) if heap_store(x)]
-    swaps = [x for x in ir.walk(fn.body) if match.call_named(x, ("swap",)) and any(heap_index(a) is not None or match.call_named(a, ("back", "front")) for a in kids(x))]
-    pushes = [x for x in ir.walk(fn.body) if match.call_named(x, ("push_back", "emplace_back")) and match.this_field(kids(x)[0]) == "heap_"]
+    """every change of heap_ keeps handles_ in step: a store heap_[I] = V has handles_[heap_[I] | V] = I on every path (unless
+    a full re-index loop follows), an appended key gets its position, a key that leaves is marked not_present"""
+    tu = fn.tu
+    stores, swaps, pushes, pops = heap_ops(fn.body)
     if not stores and not swaps and not pushes:
         return
     tag = "%s::%s/%s" % (inst_tag(fn), fn.name, ",".join(p["ty"][-12:] for p in fn.params))
-    # full re-index: for (i in [0, heap_.size())) handles_[heap_[i]] = i
-    reindex = None
-    for l in match.loops_in(fn.body):
-        if l["k"] != "ForStmt":
-            continue
-        init, cond, inc, body = match.loop_parts(l)
-        var = [y["did"] for y in ir.walk(init) if y["k"] == "VarDecl" and kids(y) and const_int(kids(y)[0]) == 0]
-        b = match.binop(cond, ("<", "!="))
-        full = bool(var and b and ref_of(b[1]) == var[0] and match.call_named(b[2], ("size",)) and match.this_field(kids(strip_casts(b[2]))[0]) == "heap_")
-        for y in ir.walk(body):
-            hs = handles_store(y)
-            if hs and full:
-                hk = heap_index(hs[0])
-                if hk is not None and ref_of(hk) == var[0] and ref_of(hs[1]) == var[0]:
-                    reindex = l
-    if reindex is not None:
-        g = cfgm.CFG(fn)
-        pl = g.pos_deep(reindex)
-        late = [x for x, _ in stores if g.pos(x) and pl and g.reachable(pl, g.pos(x)) and not g.reachable(g.pos(x), pl)]
-        if late:
-            ck.violation("HANDLE-COUPLED", fn.qname, fn.name + ":store-after-reindex", "heap_ is modified after the handle table was rebuilt", fn.nloc(late[0]))
-        else:
-            ck.ok("HANDLE-COUPLED", tag, "%d heap_ stores followed by a full re-index loop over [0, heap_.size())" % len(stores))
-        return
-    bad = False
     g = cfgm.CFG(fn)
+    hst = handle_stores(tu, fn)
+    used = set()
+    failures = []          # (kind, sig, message, node)
+    reindex, rstore, first = find_reindex(fn)
+    covered = 0
+    if reindex is not None:
+        used.add(("own", rstore["id"]))     # understood, whether it covers everything or not
+    if reindex is not None and first != 0:
+        reindex = None                      # positions below `first` keep whatever handle they had: the stores need their own
+    if reindex is not None:
+        pl = g.pos_deep(reindex)
+        late = [(x, st) for x, st in stores if g.pos(x) and pl and g.reachable(pl, g.pos(x)) and not g.reachable(g.pos(x), pl)]
+        covered = len(stores) - len(late)
+        stores = late        # what is stored after the table was rebuilt needs its own bookkeeping
     for x, (idx, val) in stores:
         # handles_ stores that record position idx for the key now at heap_[idx] (or for the stored value itself)
         v = strip_casts(val)
         mv = match.call_named(v, ("move",))
         vv = kids(mv)[-1] if mv else v
         after, before = [], []
-        for y in ir.walk(fn.body):
-            hs = handles_store(y)
-            if not hs or not match.same_expr(hs[1], idx):
+        for h in hst:
+            if not match.same_expr(h[2], idx):
                 continue
-            hk = heap_index(hs[0])
+            hk = heap_index(h[1])
             if hk is not None and match.same_expr(hk, idx):
-                after.append(y)              # handles_[heap_[idx]] = idx: meaningful once the store has happened
-            elif match.same_expr(hs[0], vv):
-                after.append(y)              # handles_[value] = idx: meaningful on either side of the store
-                before.append(y)
+                after.append(h)              # handles_[heap_[idx]] = idx: meaningful once the store has happened
+            elif match.same_expr(h[1], vv):
+                after.append(h)              # handles_[value] = idx: meaningful on either side of the store
+                before.append(h)
+        used |= {h[3] for h in after}
         px = g.pos_deep(x)
-        pa = [g.pos_deep(y) for y in after if g.pos_deep(y) is not None]
-        pb = [g.pos_deep(y) for y in before if g.pos_deep(y) is not None]
+        pa = [g.pos_deep(h[0]) for h in after if g.pos_deep(h[0]) is not None]
+        pb = [g.pos_deep(h[0]) for h in before if g.pos_deep(h[0]) is not None]
         okk = px is not None and ((pa and g.path_avoiding(px, pa) is None) or (pb and g.path_from_entry_avoiding(px, pb) is None))
         if not okk:
-            ck.violation("HANDLE-COUPLED", fn.qname, fn.name + ":store:" + dtable.describe(idx),
-                         "heap_[%s] is overwritten and a path to the exit does not record the new position of that key in handles_" % dtable.describe(idx), fn.nloc(x))
-            bad = True
+            failures.append(("pos", fn.name + (":store-after-reindex" if reindex is not None else ":store:" + dtable.describe(idx)),
+                             "heap_[%s] is overwritten%s and a path to the exit does not record the new position of that key in handles_"
+                             % (dtable.describe(idx), " after the handle table was rebuilt" if reindex is not None else ""), x))
     for x in swaps:
         # swap(heap_[h], heap_.back()): the key now at h needs handles_[heap_[h]] = h, the key at the back is about to leave
-        a = kids(x)
-        idxs = [heap_index(e) for e in a]
-        for idx in [i for i in idxs if i is not None]:
-            okk = any(handles_store(y) and heap_index(handles_store(y)[0]) is not None and match.same_expr(heap_index(handles_store(y)[0]), idx)
-                      and match.same_expr(handles_store(y)[1], idx) for y in ir.walk(fn.body))
-            if not okk:
-                ck.violation("HANDLE-COUPLED", fn.qname, fn.name + ":swap", "after the swap the key moved to heap_[%s] keeps its old handle" % dtable.describe(idx), fn.nloc(x))
-                bad = True
+        for idx in [i for i in (heap_index(e) for e in kids(x)) if i is not None]:
+            m = [h for h in hst if heap_index(h[1]) is not None and match.same_expr(heap_index(h[1]), idx) and match.same_expr(h[2], idx)]
+            used |= {h[3] for h in m}
+            if not m:
+                failures.append(("pos", fn.name + ":swap", "after the swap the key moved to heap_[%s] keeps its old handle" % dtable.describe(idx), x))
     for x in pushes:
         key = kids(x)[-1]
         mv = match.call_named(key, ("move",))
         key = kids(mv)[-1] if mv else key
-        okk = False
-        for y in ir.walk(fn.body):
-            hs = handles_store(y)
-            if hs and match.same_expr(hs[0], key):
-                sz = match.call_named(hs[1], ("size",))
-                if sz is None:
-                    sz = match.call_named(match.strip_conv(hs[1]), ("size",))
-                okk = okk or bool(sz and match.this_field(kids(strip_casts(sz))[0]) == "heap_")
+        px = g.pos_deep(x)
+        pre, post = [], []
+        for h in hst:
+            if not match.same_expr(h[1], key):
+                continue
+            b = match.binop(match.strip_conv(h[2]), ("-",))
+            if heap_size(h[2]):
+                pre.append(h)               # handles_[key] = heap_.size() in front of the push_back
+            elif b and heap_size(b[1]) and const_int(b[2]) == 1:
+                post.append(h)              # handles_[key] = heap_.size() - 1 behind it
+        used |= {h[3] for h in pre + post}
+        ppre = [g.pos_deep(h[0]) for h in pre if g.pos_deep(h[0]) is not None]
+        ppost = [g.pos_deep(h[0]) for h in post if g.pos_deep(h[0]) is not None]
+        okk = px is not None and ((ppre and g.path_from_entry_avoiding(px, ppre) is None) or (ppost and g.path_avoiding(px, ppost) is None))
         if not okk:
-            ck.violation("HANDLE-COUPLED", fn.qname, fn.name + ":push", "a key is appended to heap_ without handles_[key] = its position", fn.nloc(x))
-            bad = True
+            failures.append(("pos", fn.name + ":push", "a key is appended to heap_ without handles_[key] = its position", x))
     # removal: pop_back must mark the leaving key not present
-    pops = [x for x in ir.walk(fn.body) if match.call_named(x, ("pop_back",)) and match.this_field(kids(x)[0]) == "heap_"]
     for x in pops:
-        okk = False
-        for y in ir.walk(fn.body):
-            hs = handles_store(y)
-            if hs and is_not_present(hs[1]):
-                k = strip_casts(hs[0])
-                bk = match.call_named(k, ("back",))
-                if bk and match.this_field(kids(bk)[0]) == "heap_":
-                    okk = True
-        if not okk:
-            ck.violation("HANDLE-COUPLED", fn.qname, fn.name + ":pop", "the key leaving heap_ is not marked not_present in handles_", fn.nloc(x))
-            bad = True
-    if not bad:
-        ck.ok("HANDLE-COUPLED", tag, "%d stores, %d swaps, %d pushes, %d pops keep handles_ in step" % (len(stores), len(swaps), len(pushes), len(pops)))
+        px = g.pos_deep(x)
+        m = [h for h in hst if is_not_present(h[2]) and heap_last(h[1])]
+        used |= {h[3] for h in m}
+        pm = [g.pos_deep(h[0]) for h in m if g.pos_deep(h[0]) is not None]
+        if not (px is not None and pm and g.path_from_entry_avoiding(px, pm) is None):
+            failures.append(("np", fn.name + ":pop", "the key leaving heap_ is not marked not_present in handles_", x))
+    if failures:
+        # absence of the bookkeeping counts only in a closed world: every write of handles_ in this function is understood
+        unmatched = [h for h in hst if h[3] not in used]
+        unknown = [y for y in ir.walk(fn.body) if y["k"] == "MemberExpr" and match.this_field(y) == "handles_" and classify_handles_mention(fn, y) is None]
+        for kind, sig, msg, x in failures:
+            writers = [cal.name for c, cal in this_callees(tu, fn) if not is_handle_setter(cal) and callee_handle_kinds(tu, cal) & {kind, "unknown"}]
+            if unmatched or unknown or writers:
+                what = ("handles_[%s] = %s" % (dtable.describe(unmatched[0][1]), dtable.describe(unmatched[0][2]))) if unmatched else \
+                    ("use of handles_ at line %s" % unknown[0].get("l")) if unknown else ("%s() writes handles_" % writers[0])
+                raise dtable.Undecidable("%s: %s - cannot be decided, the handle bookkeeping of %s() is not fully understood (%s)"
+                                         % (fn.nloc(x), msg, fn.name, what))
+        for kind, sig, msg, x in failures:
+            ck.violation("HANDLE-COUPLED", fn.qname, sig, msg, fn.nloc(x))
+        return
+    if reindex is not None and not stores:
+        ck.ok("HANDLE-COUPLED", tag, "%d heap_ stores followed by a full re-index loop over [0, heap_.size())" % covered)
+    else:
+        ck.ok("HANDLE-COUPLED", tag, "%d stores, %d swaps, %d pushes, %d pops keep handles_ in step" % (len(stores) + covered, len(swaps), len(pushes), len(pops)))
 
 
 def check_handle_reset(ck, fn):
     """wholesale replacement of heap_ needs the handles of the old contents reset first"""
+    tu = fn.tu
     repl = []
     for x in ir.walk(fn.body):
         c = match.call_named(x, ("assign", "clear", "resize", "swap")) if "callee" in x else None
@@ -382,11 +929,13 @@ def check_handle_reset(ck, fn):
         b = match.binop(x, ("=",))
         if b and match.this_field(b[1]) == "heap_" and strip_casts(b[1])["k"] == "MemberExpr":
             repl.append(x)
-    if not repl:
-        return
     tag = "%s::%s/%s" % (inst_tag(fn), fn.name, ",".join(p["ty"][-14:] for p in fn.params))
+    if not repl:
+        # emptied through clear() (which is checked on its own) and refilled element by element
+        if fn.name == "build_heap" and any(this_call(x, ("clear",)) for x in ir.walk(fn.body) if "callee" in x):
+            ck.ok("HANDLE-RESET", tag, "heap_ is emptied by clear(), which resets the handles of the previous contents")
+        return
     g = cfgm.CFG(fn)
-    first = min((g.pos_deep(r) for r in repl if g.pos_deep(r)), key=lambda p: (p[0] != g.entry, ), default=None)
     resets = []
     for x in ir.walk(fn.body):
         fa = match.fill_all(x)
@@ -399,57 +948,241 @@ def check_handle_reset(ck, fn):
         if c:
             resets.append(c)
         # per-key reset loop over the old contents
-        if x["k"] in ("ForStmt", "CXXForRangeStmt"):
+        if x["k"] in LOOPS:
             for y in ir.walk(x):
                 hs = handles_store(y)
                 if hs and is_not_present(hs[1]):
                     resets.append(x)
-    okk = False
-    for r in resets:
-        pr = g.pos_deep(r)
-        if pr and all(g.pos_deep(x) and g.dominates(pr, g.pos_deep(x)) for x in repl):
-            okk = True
-    if okk:
+                    break
+    pres = [g.pos_deep(r) for r in resets if g.pos_deep(r) is not None]
+    exposed = []
+    for x in repl:
+        px = g.pos_deep(x)
+        if px is None:
+            raise dtable.Undecidable("%s: position of the replacement of heap_ not found in the CFG" % fn.nloc(x))
+        if g.path_from_entry_avoiding(px, pres) is not None:
+            exposed.append(x)
+    if not exposed:
         ck.ok("HANDLE-RESET", tag, "handles of the previous contents are reset before heap_ is replaced")
+        return
+    # a path reaches the replacement without passing a reset: evidence only if nothing else on the way could be the reset
+    x = exposed[0]
+    px = g.pos_deep(x)
+
+    def before(n):
+        q = g.pos_deep(n)
+        return q is None or q == px or g.reachable(q, px)
+    for y in ir.walk(fn.body):
+        if y["k"] == "MemberExpr" and match.this_field(y) == "handles_" and before(y) and not any(inside(fn, y, r) for r in resets):
+            kind = classify_handles_mention(fn, y)
+            if kind is None or kind == "fill":
+                raise dtable.Undecidable("%s: heap_ is replaced and no reset of the handles was recognised in front of it, but line %s uses handles_ in a "
+                                         "way that is not understood" % (fn.nloc(x), y.get("l")))
+            if kind == "store":
+                st = fn.parent(fn.parent(y))
+                hs = handles_store(st) if st is not None else None
+                if hs is None or is_not_present(hs[1]):
+                    raise dtable.Undecidable("%s: heap_ is replaced; the not_present store at line %s may be the reset of the old handles"
+                                             % (fn.nloc(x), y.get("l")))
+    for c, cal in this_callees(tu, fn):
+        if before(c) and not any(same_node(c, r) for r in resets) and callee_handle_kinds(tu, cal) & {"np", "unknown"}:
+            raise dtable.Undecidable("%s: heap_ is replaced; %s() called in front of it may reset the old handles" % (fn.nloc(x), cal.name))
+    ck.violation("HANDLE-RESET", fn.qname, ("%s/%s" % (fn.name, ",".join(p["ty"][-14:] for p in fn.params))).replace(" ", ""),
+                 "heap_ is replaced wholesale but the handles of the keys it held stay set: contains() keeps reporting removed keys", fn.nloc(repl[0]))
+
+
+def _mentions_field(e, field):
+    return any(y["k"] == "MemberExpr" and match.this_field(y) == field for y in ir.walk(e))
+
+
+def full_scan_max(fn, loop, mv):
+    """the loop visits every element of heap_ and raises the local mv to it"""
+    if loop["k"] == "CXXForRangeStmt" and len(kids(loop)) >= 3 and match.this_field(kids(loop)[0]) == "heap_":
+        var, body = kids(loop)[1], kids(loop)[2]
+        elem = lambda e: var is not None and ref_of(e) == var.get("did")
+    elif loop["k"] == "ForStmt":
+        init, cond, inc, body = match.loop_parts(loop)
+        decl = [y for y in ir.walk(init) if y["k"] == "VarDecl" and kids(y) and const_int(kids(y)[0]) == 0] if init is not None else []
+        b = match.binop(cond, ("<", "!=")) if cond is not None else None
+        u = match.unop(inc, ("++",)) if inc is not None else None
+        if not (len(decl) == 1 and b and ref_of(b[1]) == decl[0]["did"] and heap_size(b[2]) and u and ref_of(u[1]) == decl[0]["did"]):
+            return False
+        elem = lambda e: heap_index(e) is not None and ref_of(heap_index(e)) == decl[0]["did"]
     else:
-        ck.violation("HANDLE-RESET", fn.qname, ("%s/%s" % (fn.name, ",".join(p["ty"][-14:] for p in fn.params))).replace(" ", ""),
-                     "heap_ is replaced wholesale but the handles of the keys it held stay set: contains() keeps reporting removed keys", fn.nloc(repl[0]))
+        return False
+    if any(y["k"] in ("BreakStmt", "ContinueStmt", "ReturnStmt") for y in ir.walk(body)):
+        return False
+    sb = simplify(body)
+    stmts = [c for c in (kids(sb) if sb["k"] == "CompoundStmt" else [sb]) if c is not None]
+    for st in stmts:
+        xu = xu_of(st)
+        if xu and xu[0] == "max" and ref_of(xu[1]) == mv and elem(xu[2]):
+            return True
+    return False
 
 
 def check_handle_grow(ck, fn):
-    """heapify: the bound used to grow handles_ must depend on the heap contents on every path with a non-empty heap"""
-    rs = [x for x in ir.walk(fn.body) if match.call_named(x, ("resize",)) and "callee" in x and match.this_field(kids(x)[0]) == "handles_"]
-    ck.require(len(rs) == 1, "%s: handles_.resize not found in heapify" % fn.loc)
-    bound_vars = [y["ref"]["id"] for y in ir.walk(kids(rs[0])[1]) if y["k"] == "DeclRefExpr" and y["ref"]["kind"] == "local"]
-    ck.require(bound_vars, "%s: resize bound does not use a local maximum" % fn.loc)
+    """heapify: the bound used to grow handles_ must cover the heap contents: (1) with a single element (the sift loop is
+    skipped) it includes that element, (2) inside the sift loop every visited element feeds the maximum"""
+    rs = [x for x in ir.walk(fn.body) if match.call_named(x, ("resize",)) and "callee" in x and x.get("member_call") and match.this_field(kids(x)[0]) == "handles_"]
+    ck.require(len(rs) == 1 and len(kids(rs[0])) >= 2, "%s: handles_.resize not found in heapify" % fn.loc)
+    bound = kids(rs[0])[1]
+    bound_vars = []
+    for y in ir.walk(bound):
+        if y["k"] == "DeclRefExpr" and y["ref"]["kind"] == "local" and y["ref"]["id"] not in bound_vars:
+            bound_vars.append(y["ref"]["id"])
+    if len(bound_vars) != 1:
+        raise dtable.Undecidable("%s: the bound of handles_.resize is not built from one local maximum (%s)" % (fn.nloc(rs[0]), dtable.describe(bound)))
     mv = bound_vars[0]
     decl = [x for x in ir.walk(fn.body) if x["k"] == "VarDecl" and x["did"] == mv]
-    ck.require(decl and kids(decl[0]), "%s: maximum variable without initialiser" % fn.loc)
-    init = kids(decl[0])[0]
-    reads_heap = any((match.call_named(y, ("front", "back")) and "callee" in y and match.this_field(kids(y)[0]) == "heap_") or
-                     (heap_index(y) is not None and y["k"] != "MemberExpr") for y in ir.walk(init))
-    # is the update loop guarded by a size condition that can be false for a non-empty heap?
-    guarded = [x for x in kids(fn.body) if x["k"] == "IfStmt" and any(ref_of(match.binop(y, ("=",))[1]) == mv for y in ir.walk(x) if match.binop(y, ("=",)))]
-    if guarded and not reads_heap:
-        ck.violation("HANDLE-GROW", fn.qname, "single-element",
-                     "on the path that skips the sift loop (one element) the bound for handles_.resize does not include that element: out-of-bounds handle write", fn.nloc(decl[0]))
-        return
-    # every element visited by the loop feeds the maximum: value and all children
-    upd = [y for y in ir.walk(fn.body) if match.binop(y, ("=",)) and ref_of(match.binop(y, ("=",))[1]) == mv]
-    fed = set()
-    roles, value_var = index_roles(fn)
-    for y in list(upd) + [z for z in ir.walk(fn.body) if z["k"] == "IfStmt"]:
-        eu = match.extreme_update(y, "max")
-        if not eu or ref_of(eu[0]) != mv:
+    ck.require(decl, "%s: declaration of the maximum variable not found" % fn.loc)
+
+    # ---- (1) scenario: exactly one element in heap_
+    SIZE = 1
+
+    def szval(e):
+        e = strip_casts(e)
+        if e is None:
+            return None
+        c = const_int(e)
+        if c is not None:
+            return c
+        if heap_size(e):
+            return SIZE
+        b = match.binop(e, ("+", "-", "*", "/")) if e["k"] == "BinaryOperator" else None
+        if b:
+            l, r = szval(b[1]), szval(b[2])
+            if l is None or r is None or (b[0] == "/" and r == 0):
+                return None
+            v = {"+": l + r, "-": l - r, "*": l * r, "/": l // r if r else 0}[b[0]]
+            return v if v >= 0 else None          # unsigned wrap-around is not modelled
+        return None
+
+    def atomize(n, run):
+        c = match.call_named(n, ("empty",))
+        if c is not None and c.get("member_call") and kids(c):
+            o = strip_casts(kids(c)[0])
+            if match.this_field(o) == "heap_" or o["k"] == "This":
+                return SIZE == 0
+        if n["k"] == "BinaryOperator" and n.get("op") in ("<", ">", "<=", ">=", "==", "!="):
+            l, r = szval(kids(n)[0]), szval(kids(n)[1])
+            if l is not None and r is not None:
+                return {"<": l < r, ">": l > r, "<=": l <= r, ">=": l >= r, "==": l == r, "!=": l != r}[n["op"]]
+        if heap_size(n):
+            return SIZE != 0
+        return base_atom(n)
+
+    leaves = dtable.explore(simplify(fn.body), atomize, fn)
+    reached = 0
+    for lf in leaves:
+        run = lf["run"]
+        state = {"cov": False}
+
+        def covers(e):
+            """the value of e is at least the single element of heap_ | None = not understood"""
+            e0 = e
+            e = match.strip_conv(e)
+            if e is None:
+                return False
+            if e["k"] == "DeclRefExpr":
+                return state["cov"] if e["ref"]["id"] == mv else (False if const_int(e) is not None or e["ref"].get("kind") != "local" else None)
+            if const_int(e) is not None:
+                return False
+            c = match.call_named(e, ("front", "back"))
+            if c is not None and c.get("member_call") and kids(c) and match.this_field(kids(c)[0]) == "heap_":
+                return True
+            hi = heap_index(e)
+            if hi is not None and e["k"] != "MemberExpr":
+                v = szval(hi)
+                return True if v is not None and 0 <= v < SIZE else None
+            if e["k"] == "ConditionalOperator":
+                try:
+                    t = run.truth(kids(e)[0])
+                except dtable._Need:
+                    return None
+                return covers(kids(e)[1] if t else kids(e)[2])
+            m = match.call_named(e, ("max",))
+            if m is not None and "callee" in e and len(kids(m)) >= 2:
+                a, b = covers(kids(m)[0]), covers(kids(m)[1])
+                return True if (a or b) else (None if (a is None or b is None) else False)
+            b = match.binop(e, ("+",)) if e["k"] == "BinaryOperator" else None
+            if b:
+                for x, y in ((b[1], b[2]), (b[2], b[1])):
+                    cy = const_int(y)
+                    if cy is not None and cy >= 0:
+                        return covers(x)
+            if not _mentions_field(e, "heap_") and not any(y["k"] == "DeclRefExpr" and y["ref"].get("kind") == "local" for y in ir.walk(e)):
+                return False                       # no element of heap_ enters this value
+            return None
+
+        verdict = "unreached"
+        for kind, n in leaf_items(lf):
+            if kind == "decl":
+                if n.get("did") == mv and kids(n):
+                    state["cov"] = covers(kids(n)[0])
+                continue
+            if kind == "loop":
+                if any((match.binop(y) and match.binop(y)[0].endswith("=") and match.binop(y)[0] not in ("==", "!=", "<=", ">=") and ref_of(match.binop(y)[1]) == mv)
+                       for y in ir.walk(n)) or mv in run.clobbered and any(y["k"] == "DeclRefExpr" and y["ref"]["id"] == mv for y in ir.walk(n)):
+                    state["cov"] = True if full_scan_max(fn, n, mv) else None
+                continue
+            if same_node(n, rs[0]):
+                verdict = covers(bound)
+                break
+            xu = xu_of(n)
+            if xu and ref_of(xu[1]) == mv:
+                o = covers(xu[2])
+                if xu[0] == "max":
+                    state["cov"] = True if (state["cov"] or o) else (None if (state["cov"] is None or o is None) else False)
+                else:
+                    state["cov"] = None
+                continue
+            b = match.binop(n) if n["k"] in ("BinaryOperator", "CompoundAssignOperator", "CXXOperatorCallExpr") else None
+            if b and b[0].endswith("=") and b[0] not in ("==", "!=", "<=", ">=") and ref_of(b[1]) == mv:
+                state["cov"] = covers(b[2]) if b[0] == "=" else None
+        if verdict == "unreached":
             continue
-        r, v = operand_role(eu[1], roles, value_var)
-        if r:
-            fed.add((r, v))
-    kinds = set(r for r, _ in fed)
-    if not {"value", "child"} <= kinds:
-        ck.violation("HANDLE-GROW", fn.qname, "coverage", "the maximum key does not take every visited element into account (needs the hole value and all children)", fn.loc)
+        reached += 1
+        if verdict is None or (verdict is False and has_aux(lf["val"])):
+            raise dtable.Undecidable("%s: cannot tell whether the bound of handles_.resize (%s) includes the only element of a one-element heap"
+                                     % (fn.nloc(rs[0]), dtable.describe(bound)))
+        if verdict is False:
+            ck.violation("HANDLE-GROW", fn.qname, "single-element",
+                         "on the path that skips the sift loop (one element) the bound for handles_.resize does not include that element: out-of-bounds handle write", fn.nloc(decl[0]))
+            return
+    if not reached:
+        raise dtable.Undecidable("%s: handles_.resize is not reached in the one-element scenario" % fn.nloc(rs[0]))
+
+    # ---- (2) every element visited by the sift loop feeds the maximum: the hole value and all children
+    fed = set()
+    unknown = []
+    roles, value_var = index_roles(fn)
+    sb = simplify(fn.body)
+    full = any(full_scan_max(fn, l, mv) for l in ir.walk(fn.body) if l["k"] in ("ForStmt", "CXXForRangeStmt"))
+    for y in ir.walk(sb):
+        if y["k"] == "VarDecl" and y.get("did") == mv:
+            continue
+        b = match.binop(y) if y["k"] in ("BinaryOperator", "CompoundAssignOperator", "CXXOperatorCallExpr") else None
+        if not (b and b[0].endswith("=") and b[0] not in ("==", "!=", "<=", ">=") and ref_of(b[1]) == mv):
+            u = match.unop(y, ("++", "--"))
+            if u and ref_of(u[1]) == mv:
+                unknown.append(y)
+            continue
+        xu = xu_of(y)
+        if xu and xu[0] == "max" and ref_of(xu[1]) == mv:
+            r, v = operand_role(xu[2], roles, value_var, fn)
+            if r:
+                fed.add("value" if r == "hole" else r)
+            elif _mentions_field(xu[2], "heap_") or any(z["k"] == "DeclRefExpr" and z["ref"].get("kind") == "local" for z in ir.walk(xu[2])):
+                unknown.append(y)
+        elif _mentions_field(b[2], "heap_"):
+            unknown.append(y)
+    if full or {"value", "child"} <= fed:
+        ck.ok("HANDLE-GROW", inst_tag(fn) + "::heapify", "resize bound = max over root/hole values and all children; single-element path reads heap_.front()")
         return
-    ck.ok("HANDLE-GROW", inst_tag(fn) + "::heapify", "resize bound = max over root/hole values and all children; single-element path reads heap_.front()")
+    if unknown:
+        raise dtable.Undecidable("%s: an update of the maximum key is not understood: %s" % (fn.nloc(unknown[0]), dtable.describe(unknown[0])))
+    ck.violation("HANDLE-GROW", fn.qname, "coverage", "the maximum key does not take every visited element into account (needs the hole value and all children)", fn.loc)
 
 
 # ---------------------------------------------------------------- radix heap
@@ -461,26 +1194,258 @@ def bucket_index(e):
     return None
 
 
-def with_helpers(tu, fn):
-    """nodes of fn's body, plus the nodes of the private helpers of the same class that fn calls on *this (one level), each
-    with the substitution {helper parameter id: argument expression at the call}"""
-    out = [(y, None) for y in ir.walk(fn.body)]
-    for c in ir.walk(fn.body):
-        if "callee" in c and c.get("member_call") and kids(c) and strip_casts(kids(c)[0])["k"] == "This":
-            cal = tu.by_did.get(c["callee"]["did"])
-            if cal is None or cal.body is None or cal.did == fn.did or cal.record != fn.record:
+def bucket_of(fn, e):
+    """index expr if e denotes this->buckets_data_[i], directly or through a local reference bound to it"""
+    t = strip_casts(e)
+    idx = bucket_index(t)
+    if idx is None and t is not None and t["k"] == "DeclRefExpr":
+        # reference alias: auto& data_source = buckets_data_[i]
+        d = [y for y in ir.walk(fn.body) if y["k"] == "VarDecl" and y["did"] == t["ref"]["id"] and kids(y)]
+        if d:
+            idx = bucket_index(kids(d[0])[0])
+    return idx
+
+
+def resolve_local(fn, e, depth=0):
+    """e with never-written locals that were initialised from plain values (no calls, no fields) replaced by those values"""
+    if e is None or depth > 4:
+        return e
+    mapping = {}
+    for y in ir.walk(e):
+        if y["k"] == "DeclRefExpr" and y["ref"].get("kind") == "local" and y["ref"]["id"] not in mapping:
+            did = y["ref"]["id"]
+            d = [z for z in ir.walk(fn.body) if z["k"] == "VarDecl" and z.get("did") == did and kids(z) and kids(z)[0] is not None]
+            if not d or any(z["k"] in ("MemberExpr", "This") or "callee" in z for z in ir.walk(kids(d[0])[0])):
                 continue
-            sub = {p["did"]: a for p, a in zip(cal.params, kids(c)[1:])}
-            out += [(y, sub) for y in ir.walk(cal.body)]
+            written = False
+            for z in ir.walk(fn.body):
+                bb = match.binop(z)
+                if bb and bb[0].endswith("=") and bb[0] not in ("==", "!=", "<=", ">=") and ref_of(bb[1]) == did and strip_casts(bb[1])["k"] == "DeclRefExpr":
+                    written = True
+                u = match.unop(z, ("++", "--"))
+                if u and ref_of(u[1]) == did:
+                    written = True
+            if not written:
+                mapping[did] = kids(d[0])[0]
+    if not mapping:
+        return e
+    return resolve_local(fn, dtable._subst(e, mapping), depth + 1)
+
+
+def index_relation(fn, e, idx, sub=None):
+    """'same' | 'diff' | 'maybe': does the index expression e (inside a helper: through the substitution sub) denote the
+    bucket idx?  Two different plain designators (a variable, a field) are taken as different buckets."""
+    if sub:
+        e = dtable._subst(e, sub)
+    a, b = resolve_local(fn, e), resolve_local(fn, idx)
+    if match.same_expr(a, b):
+        return "same"
+    sa, sb = strip_casts(a), strip_casts(b)
+    simple = lambda n: n is not None and (n["k"] == "DeclRefExpr" or (n["k"] == "MemberExpr" and match.this_field(n)) or const_int(n) is not None)
+    return "diff" if simple(sa) and simple(sb) else "maybe"
+
+
+def site_region(fn, c):
+    """the statement whose paths are tabulated for a bucket operation: the body of the innermost loop around it, else the function"""
+    loop, via = enclosing(fn, c, LOOPS)
+    if loop is None:
+        return fn.body
+    body = kids(loop)[2] if loop["k"] == "CXXForRangeStmt" else match.loop_parts(loop)[3]
+    if not same_node(via, body):
+        raise dtable.Undecidable("%s: bucket operation in the control part of a loop" % fn.nloc(c))
+    return body
+
+
+def expanded(tu, fn, lf):
+    """(node, substitution, in_loop, event number) for the nodes a leaf executes, with the bodies of loop-free helpers called
+    on *this (one level; parameters stand for the arguments); second result: (call, callee, event number) of the helpers
+    that were not expanded"""
+    out, opaque = [], []
+    for ei, (kind, n) in enumerate(leaf_items(lf)):
+        for y in ir.walk(n):
+            out.append((y, None, kind == "loop", ei))
+            if "callee" in y and y.get("member_call") and kids(y) and strip_casts(kids(y)[0])["k"] == "This":
+                cal = tu.by_did.get(y["callee"].get("did"))
+                if cal is None or cal.body is None or cal.did == fn.did or cal.record != fn.record:
+                    if not y["callee"].get("const"):
+                        opaque.append((y, None, ei))
+                    continue
+                if any(z["k"] in LOOPS for z in ir.walk(cal.body)) or kind == "loop":
+                    opaque.append((y, cal, ei))
+                    continue
+                sub = {p_["did"]: a for p_, a in zip(cal.params, kids(y)[1:])}
+                out += [(z, sub, False, ei) for z in ir.walk(cal.body)]
+                for c2, cal2 in this_callees(tu, cal):
+                    opaque.append((c2, cal2, ei))
+    return out, opaque
+
+
+def field_unknowns(tu, fn, nodes, opaque, field, known_calls=(), since=0):
+    """uses of this->field on a leaf whose effect the rule does not classify (so that "the required update is absent"
+    would be a guess): unknown member functions, aliases, the field handed to other functions, helpers that were not
+    expanded and write the field (from event number `since` on)"""
+    out = []
+    par_of = {}
+    for y, sub, in_loop, ei in nodes:
+        for c in kids(y):
+            if c is not None:
+                par_of[id(c)] = y
+    for y, sub, in_loop, ei in nodes:
+        if not (y["k"] == "MemberExpr" and match.this_field(y) == field):
+            continue
+        par = par_of.get(id(y))
+        node = y
+        ip = match.index_parts(par) if par is not None else None
+        if ip and strip_casts(ip[0]) is y:
+            node, par = par, par_of.get(id(par))
+        while par is not None and par["k"] in CASTS:
+            node, par = par, par_of.get(id(par))
+        if par is None:
+            continue
+        if "callee" in par and par.get("member_call") and kids(par) and strip_casts(kids(par)[0]) is strip_casts(node) and not par.get("op"):
+            if par["callee"]["name"] in known_calls or par["callee"].get("const"):
+                continue
+            out.append("%s.%s() at line %s" % (field, par["callee"]["name"], par.get("l")))
+        elif par["k"] == "VarDecl" and (par.get("isref") or (par.get("ty") or "").rstrip().endswith(("&", "*"))):
+            out.append("alias of %s at line %s" % (field, par.get("l")))
+        elif par["k"] == "CXXForRangeStmt":
+            out.append("loop over %s at line %s" % (field, par.get("l")))
+        elif "callee" in par and not par.get("op") and not par["callee"].get("const"):
+            if par["callee"]["name"] not in ("min", "max", "move", "forward"):
+                out.append("%s passed to %s() at line %s" % (field, par["callee"]["name"], par.get("l")))
+        elif par["k"] == "UnaryOperator" and par.get("op") == "&":
+            out.append("address of %s at line %s" % (field, par.get("l")))
+    for c, cal, ei in opaque:
+        if ei >= since and (cal is None or field in written_fields(tu, cal)):
+            out.append("%s() may write %s" % (c["callee"]["name"], field))
     return out
 
 
-def same_through(e, idx, sub):
-    """e (possibly a helper's parameter standing for the caller's argument) denotes the same expression as idx"""
-    d = ref_of(e)
-    if sub and d is not None and d in sub:
-        return match.same_expr(sub[d], idx)
-    return match.same_expr(e, idx)
+def moved_between_buckets(fn, c):
+    """the inserted element is the loop variable of a range-for over another bucket: elements change buckets, size_ stays"""
+    loop, _ = enclosing(fn, c, ("CXXForRangeStmt",))
+    if loop is None or bucket_of(fn, kids(loop)[0]) is None or kids(loop)[1] is None:
+        return False
+    arg = kids(c)[-1]
+    mv = match.call_named(arg, ("move",))
+    arg = kids(mv)[-1] if mv else arg
+    return ref_of(arg) == kids(loop)[1].get("did")
+
+
+def radix_site(ck, tu, fn, tag, c, idx, op):
+    """one insertion into / emptying of a bucket: tabulates the paths of the enclosing region through the operation"""
+    def atomize(n, run, c=c, idx=idx):
+        e = match.call_named(n, ("empty",))
+        if e is not None and e.get("member_call") and kids(e):
+            bi = bucket_of(fn, kids(e)[0])
+            if bi is not None and match.same_expr(bi, idx):
+                done = any(ev[0] == "expr" and inside(fn, c, ev[1]) for ev in run.events)
+                return ("empty-after" if done else "empty-before", False)
+        return base_atom(n)
+    leaves = [lf for lf in dtable.explore(simplify(site_region(fn, c)), atomize, fn)
+              if any(kind == "expr" and inside(fn, c, n) for kind, n in leaf_items(lf))]
+    if not leaves:
+        raise dtable.Undecidable("%s: no path through the bucket operation found" % fn.nloc(c))
+    moving = op == "insert" and (moved_between_buckets(fn, c) or fn.name.startswith("reorganize"))
+    missing = None          # (what, leaf valuation, reasons why the evidence is not conclusive)
+    facts = []
+    for lf in leaves:
+        nodes, opaque = expanded(tu, fn, lf)
+        val = lf["val"]
+        others = {k: v for k, v in val.items() if k not in ("empty-before", "empty-after")}
+        at = min(ei for y, sub, in_loop, ei in nodes if same_node(y, c))       # event that performs the bucket operation
+        hit = {"set_bit": False, "clear_bit": False, "min": False, "reset": False, "+": False, "-": False}
+        maybe = {"set_bit": [], "clear_bit": [], "min": [], "reset": [], "size": []}
+        for y, sub, in_loop, ei in nodes:
+            if "callee" in y and y.get("member_call") and kids(y) and match.this_field(kids(y)[0]) == "filled_" and y["callee"]["name"] in ("set_bit", "clear_bit"):
+                rel = index_relation(fn, kids(y)[1], idx, sub) if len(kids(y)) > 1 else "maybe"
+                if rel == "same" and not in_loop:
+                    hit[y["callee"]["name"]] = True
+                elif rel != "diff":
+                    maybe[y["callee"]["name"]].append("%s at line %s" % (dtable.describe(y), y.get("l")))
+            xu = xu_of(y) if y["k"] in ("BinaryOperator", "CXXOperatorCallExpr") else None
+            b = match.binop(y) if y["k"] in ("BinaryOperator", "CompoundAssignOperator", "CXXOperatorCallExpr") and not y.get("xu") else None
+            if b and not (b[0].endswith("=") and b[0] not in ("==", "!=", "<=", ">=")):
+                b = None
+            tgt = xu[1] if xu else (b[1] if b else None)
+            ip = match.index_parts(tgt) if tgt is not None else None
+            if ip and match.this_field(ip[0]) == "mins_":
+                rel = index_relation(fn, ip[1], idx, sub)
+                if xu:
+                    kind = "min" if xu[0] == "min" else "raise"
+                elif b[0] == "=" and match.call_named(b[2], ("max",)) and not kids(match.call_named(b[2], ("max",))):
+                    kind = "reset"
+                elif b[0] == "=" and not _mentions_field(b[2], "mins_") and not has_aux(others):
+                    kind = "overwrite"       # unconditional on this path: the old minimum is lost
+                else:
+                    kind = "other"
+                where = "%s at line %s" % (dtable.describe(y)[:60], y.get("l"))
+                if kind in ("min", "reset"):
+                    if rel == "same" and not in_loop:
+                        hit[kind] = True
+                    elif rel != "diff":
+                        maybe[kind].append(where)
+                elif kind == "other" and rel != "diff":
+                    maybe["min"].append(where)
+                    maybe["reset"].append(where)
+            fd = match.field_delta(y, "size_")
+            if fd and not in_loop:
+                hit[fd[0]] = True
+            elif (fd and in_loop) or (b and match.this_field(b[1]) == "size_" and strip_casts(b[1])["k"] == "MemberExpr" and not fd):
+                maybe["size"].append("%s at line %s" % (dtable.describe(y)[:60], y.get("l")))
+        facts.append((lf, nodes, opaque, others, at, hit, maybe))
+    fl_known = ("set_bit", "clear_bit", "is_set", "empty", "find_lsb")
+    for lf, nodes, opaque, others, at, hit, maybe in facts:
+        val = lf["val"]
+
+        def absent(what, field, eff, cands, known_calls=(), since=0):
+            """the update is not on this path; conclusive only if nothing on the path could be that update in another
+            form, and if the paths that do perform it differ from this one in understood conditions only"""
+            why = list(cands) + field_unknowns(tu, fn, nodes, opaque, field, known_calls, since)
+            if has_aux(others) and any(f[5][eff] for f in facts):
+                why.append("the path depends on %s" % ", ".join(sorted(k for k in others if k.startswith(("aux:", "flag:")))[:2]))
+            return (what, val, why)
+
+        if op == "insert":
+            if val.get("empty-before") is not False and not hit["set_bit"]:
+                missing = missing or absent("filled_ bit set when the bucket was empty", "filled_", "set_bit", maybe["set_bit"], fl_known)
+            if not hit["min"]:
+                missing = missing or absent("mins_[idx] lowered to the new key", "mins_", "min", maybe["min"])
+            if not moving and not hit["+"]:
+                missing = missing or absent("size_ incremented", "size_", "+", maybe["size"])
+        else:
+            if op == "pop_back":
+                e = val.get("empty-after")
+                if e is not False and not hit["clear_bit"]:
+                    missing = missing or absent("filled_ bit cleared when the bucket became empty", "filled_", "clear_bit", maybe["clear_bit"], fl_known, at)
+                elif e is not True and hit["clear_bit"]:
+                    # positive: the bit is cleared on a path on which the bucket is not known to be empty
+                    missing = missing or ("filled_ bit kept while the bucket still holds elements", val,
+                                          ["the path depends on %s" % ", ".join(sorted(others)[:2])] if has_aux(others) else [])
+            elif not hit["clear_bit"]:
+                missing = missing or absent("filled_ bit cleared", "filled_", "clear_bit", maybe["clear_bit"], fl_known, at)
+            if op in ("pop_back", "swap") and not hit["-"]:
+                missing = missing or absent("size_ decremented", "size_", "-", maybe["size"])
+            if op == "clear" and not hit["reset"]:
+                # clear of a drained bucket: its minimum must be reset too
+                missing = missing or absent("mins_[idx] reset to the maximum", "mins_", "reset", maybe["reset"])
+        if missing:
+            break
+    if missing is None:
+        if op == "insert":
+            ck.ok("RADIX-COUPLED", tag + " insert", "set_bit iff bucket was empty, mins_ lowered, size_ %s" % ("unchanged (move)" if moving else "incremented"))
+        else:
+            ck.ok("RADIX-COUPLED", tag + " " + op, "filled_ bit / mins_ / size_ follow the bucket")
+        return
+    what, val, why = missing
+    if why:
+        raise dtable.Undecidable("%s: %s of a bucket without '%s' on the path %s - cannot be decided: %s"
+                                 % (fn.nloc(c), op, what, dtable.fmt_val(val) or "(unconditional)", "; ".join(why[:3])))
+    if op == "insert":
+        ck.violation("RADIX-COUPLED", fn.qname, fn.name + ":insert", "insertion into a bucket without: %s (path: %s)" % (what, dtable.fmt_val(val) or "unconditional"), fn.nloc(c))
+    else:
+        ck.violation("RADIX-COUPLED", fn.qname, fn.name + ":" + op,
+                     "a bucket is emptied without keeping filled_/mins_/size_ in step: %s (path: %s)" % (what, dtable.fmt_val(val) or "unconditional"), fn.nloc(c))
 
 
 def check_radix_coupled(ck, tu):
@@ -489,147 +1454,123 @@ def check_radix_coupled(ck, tu):
     n_ins = n_del = 0
     for fn in fns:
         tag = "%s::%s" % (inst_tag(fn), fn.name)
-        g = None
-        # insertion sites
+        sites = []
         for x in ir.walk(fn.body):
-            c = match.call_named(x, ("push_back", "emplace_back")) if "callee" in x else None
-            if not (c and c.get("member_call")):
+            c = match.call_named(x, ("push_back", "emplace_back", "pop_back", "clear", "swap")) if "callee" in x else None
+            if not (c and c.get("member_call") and kids(c)):
                 continue
-            idx = bucket_index(kids(c)[0])
+            idx = bucket_of(fn, kids(c)[0])
             if idx is None:
                 continue
-            n_ins += 1
-            g = g or cfgm.CFG(fn)
-            pc = g.pos(c)
-            # (1) set_bit(idx) guarded by buckets_data_[idx].empty() on the way
-            sb = [y for y in ir.walk(fn.body) if "callee" in y and match.call_named(y, ("set_bit",)) and match.this_field(kids(y)[0]) == "filled_"
-                  and match.same_expr(kids(y)[1], idx)]
-            ok1 = False
-            for y in sb:
-                par = fn.parent(y)
-                while par is not None and par["k"] != "IfStmt":
-                    par = fn.parent(par)
-                if par is not None:
-                    cnd = match.call_named(kids(par)[0], ("empty",))
-                    if cnd and bucket_index(kids(strip_casts(cnd))[0]) is not None and match.same_expr(bucket_index(kids(strip_casts(cnd))[0]), idx) \
-                            and g.pos(y) and g.reachable(g.pos(y), pc):
-                        ok1 = True
-            # (2) mins_[idx] lowered to the new key: if (mins_[idx] > key) mins_[idx] = key  |  mins_[idx] = std::min(mins_[idx], key)
-            ok2 = False
-            for y in ir.walk(fn.body):
-                eu = match.extreme_update(y, "min") if y["k"] in ("IfStmt", "BinaryOperator", "CXXOperatorCallExpr") else None
-                if eu:
-                    p = match.index_parts(eu[0])
-                    if p and match.this_field(p[0]) == "mins_" and match.same_expr(p[1], idx):
-                        ok2 = True
-            # (3) size accounting: ++size_ unless elements are only moved between buckets
-            moving = fn.name.startswith("reorganize")
-            ok3 = moving or any((match.field_delta(y, "size_") or ("", 0))[0] == "+" for y in ir.walk(fn.body))
-            if ok1 and ok2 and ok3:
-                ck.ok("RADIX-COUPLED", tag + " insert", "set_bit iff bucket was empty, mins_ lowered, size_ %s" % ("unchanged (move)" if moving else "incremented"))
+            op = c["callee"]["name"]
+            if op in ("push_back", "emplace_back"):
+                sites.append((c, idx, "insert"))
+            elif fn.name != "clear":
+                sites.append((c, idx, op))
+        for c, idx, op in sites:
+            if op == "insert":
+                n_ins += 1
             else:
-                what = [w for w, o in (("filled_ bit set when the bucket was empty", ok1), ("mins_[idx] lowered to the new key", ok2), ("size_ incremented", ok3)) if not o]
-                ck.violation("RADIX-COUPLED", fn.qname, fn.name + ":insert", "insertion into a bucket without: " + "; ".join(what), fn.nloc(c))
-        # emptying sites
-        for x in ir.walk(fn.body):
-            c = match.call_named(x, ("pop_back", "clear", "swap")) if "callee" in x else None
-            if not (c and c.get("member_call")):
-                continue
-            tgt = strip_casts(kids(c)[0])
-            idx = bucket_index(tgt)
-            local_alias = None
-            if idx is None and tgt["k"] == "DeclRefExpr":
-                # reference alias: auto& data_source = buckets_data_[i]
-                d = [y for y in ir.walk(fn.body) if y["k"] == "VarDecl" and y["did"] == tgt["ref"]["id"] and kids(y)]
-                if d:
-                    idx = bucket_index(kids(d[0])[0])
-                    local_alias = d[0]
-            if idx is None:
-                continue
-            if fn.name == "clear":
-                continue
-            n_del += 1
-            scope = with_helpers(tu, fn)
-            cb = [y for y, sub in scope if "callee" in y and match.call_named(y, ("clear_bit",)) and match.this_field(kids(y)[0]) == "filled_"
-                  and same_through(kids(y)[1], idx, sub)]
-            cb_here = [y for y in cb if fn.byid(y["id"]) is y]
-            okb = bool(cb)
-            if c["callee"]["name"] == "pop_back":
-                # clear_bit only if the bucket became empty; --size_
-                okb = okb and any((match.field_delta(y, "size_") or ("", 0))[0] == "-" for y in ir.walk(fn.body))
-                cnd_ok = False
-                for y in cb_here:
-                    par = fn.parent(y)
-                    while par is not None and par["k"] != "IfStmt":
-                        par = fn.parent(par)
-                    if par is not None and match.call_named(kids(par)[0], ("empty",)):
-                        cnd_ok = True
-                okb = okb and cnd_ok
-            elif c["callee"]["name"] == "swap":
-                okb = okb and any((match.field_delta(y, "size_") or ("", 0))[0] == "-" for y in ir.walk(fn.body))
-            else:
-                # clear of a drained bucket: its minimum must be reset too
-                okm = False
-                for y, sub in scope:
-                    b = match.binop(y, ("=",))
-                    if b:
-                        p = match.index_parts(b[1])
-                        if p and match.this_field(p[0]) == "mins_" and same_through(p[1], idx, sub) and match.call_named(b[2], ("max",)):
-                            okm = True
-                okb = okb and okm
-            if okb:
-                ck.ok("RADIX-COUPLED", tag + " " + c["callee"]["name"], "filled_ bit / mins_ / size_ follow the bucket")
-            else:
-                ck.violation("RADIX-COUPLED", fn.qname, fn.name + ":" + c["callee"]["name"],
-                             "a bucket is emptied without keeping filled_/mins_/size_ in step", fn.nloc(c))
+                n_del += 1
+            ck.guarded(lambda c=c, idx=idx, op=op: radix_site(ck, tu, fn, tag, c, idx, op))
     return n_ins, n_del
 
 
-def written_fields(tu, fn, depth=0, seen=None):
-    """fields of *this written by fn, directly or through member calls on this / on fields"""
+PURE_FREE = ("min", "max", "move", "forward", "size", "begin", "end", "cbegin", "cend", "get", "addressof", "distance")
+
+
+def field_aliases(fn):
+    """decl id -> field name for local references / pointers / range-for variables that stand for (an element of) a field of *this"""
+    out = {}
+
+    def root_field(e):
+        base = strip_casts(e)
+        while base is not None:
+            f = match.this_field(base)
+            if f:
+                return f
+            if base["k"] == "DeclRefExpr" and base["ref"]["id"] in out:
+                return out[base["ref"]["id"]]
+            p = match.index_parts(base)
+            if p:
+                base = strip_casts(p[0])
+                continue
+            d = match.deref_of(base)
+            if d is not None:
+                base = strip_casts(d)
+                continue
+            if base["k"] == "UnaryOperator" and base.get("op") == "&" and kids(base):
+                base = strip_casts(kids(base)[0])
+                continue
+            if "callee" in base and base.get("member_call") and kids(base) and base["callee"]["name"] in ("begin", "end", "data", "front", "back", "at"):
+                base = strip_casts(kids(base)[0])
+                continue
+            b = match.binop(base, ("+", "-"))
+            if b:
+                base = strip_casts(b[1])
+                continue
+            return None
+        return None
+    for _ in range(3):
+        for x in ir.walk(fn.body):
+            if x["k"] == "VarDecl" and kids(x) and kids(x)[0] is not None and x.get("did") not in out:
+                ty = (x.get("ty") or "").rstrip()
+                if x.get("isref") or ty.endswith(("&", "*")) or "iterator" in ty:
+                    f = root_field(kids(x)[0])
+                    if f:
+                        out[x["did"]] = f
+            if x["k"] == "CXXForRangeStmt" and len(kids(x)) >= 2 and kids(x)[1] is not None and kids(x)[1].get("did") not in out:
+                f = root_field(kids(x)[0])
+                v = kids(x)[1]
+                if f and (v.get("isref") or (v.get("ty") or "").rstrip().endswith("&")):
+                    out[v["did"]] = f
+    return out, root_field
+
+
+def written_fields(tu, fn, depth=0, seen=None, opaque=None):
+    """fields of *this written by fn, directly or through member calls on this / on fields (also through local references
+    to them).  `opaque`, if given, collects descriptions of operations whose effect on the fields is not understood."""
     seen = seen if seen is not None else set()
     if fn.did in seen or depth > 4:
         return set()
     seen.add(fn.did)
     out = set()
+    aliases, root_field = field_aliases(fn)
     for x in ir.walk(fn.body):
         b = match.binop(x)
-        if b and b[0] in ("=", "+=", "-=", "|=", "&="):
-            base = strip_casts(b[1])
-            while True:
-                f = match.this_field(base)
-                if f:
-                    out.add(f)
-                    break
-                p = match.index_parts(base)
-                if p:
-                    base = strip_casts(p[0])
-                    continue
-                break
+        if b and b[0] in ("=", "+=", "-=", "|=", "&=", "*=", "/=", "^=", "<<=", ">>=", "%="):
+            f = root_field(b[1])
+            if f:
+                out.add(f)
         u = match.unop(x, ("++", "--"))
-        if u and match.this_field(u[1]):
-            out.add(match.this_field(u[1]))
-        if "callee" in x and x.get("member_call"):
+        if u and root_field(u[1]) and not (strip_casts(u[1])["k"] == "DeclRefExpr"):
+            out.add(root_field(u[1]))
+        if "callee" in x and x.get("member_call") and kids(x):
             obj = strip_casts(kids(x)[0])
-            f = match.this_field(obj)
-            # element of a member container: children_[i].set_bit(...)
-            base = obj
-            while f is None and match.index_parts(base):
-                base = strip_casts(match.index_parts(base)[0])
-                f = match.this_field(base)
+            f = root_field(obj)
             if f and not x["callee"].get("const"):
                 out.add(f)
             if obj["k"] == "This":
                 cal = tu.by_did.get(x["callee"]["did"])
-                if cal is not None:
-                    out |= written_fields(tu, cal, depth + 1, seen)
+                if cal is not None and cal.body is not None:
+                    out |= written_fields(tu, cal, depth + 1, seen, opaque)
+                elif opaque is not None and not x["callee"].get("const"):
+                    opaque.append("%s() at line %s (body not available)" % (x["callee"]["name"], x.get("l")))
         fa = match.fill_all(x)
-        if fa and match.this_field(fa[0]):
-            out.add(match.this_field(fa[0]))
+        if fa and root_field(fa[0]):
+            out.add(root_field(fa[0]))
         if x["k"] == "CXXForRangeStmt":
             f = match.this_field(kids(x)[0])
             if f and any("callee" in y and y.get("member_call") and not y["callee"].get("const") for y in ir.walk(kids(x)[2])):
                 out.add(f)
+        if opaque is not None:
+            if x["k"] == "LambdaExpr":
+                opaque.append("lambda at line %s" % x.get("l"))
+            if "callee" in x and not x.get("member_call") and not x.get("op") and x["k"] not in ("CXXConstructExpr", "CXXTemporaryObjectExpr") \
+                    and x["callee"]["name"] not in PURE_FREE and not match.fill_all(x):
+                # a free function that receives a field (or something derived from it) by reference may write it
+                if any(y["k"] == "This" or (y["k"] == "DeclRefExpr" and y["ref"]["id"] in aliases) for a_ in kids(x) for y in ir.walk(a_)):
+                    opaque.append("%s(...) at line %s" % (x["callee"]["name"], x.get("l")))
     return out
 
 
@@ -638,74 +1579,112 @@ def check_build_replaces(ck, tu, rec):
     overwritten it first"""
     RESET = ("assign", "clear", "resize", "operator=", "swap")
     APPEND = ("push_back", "emplace_back", "insert", "emplace")
+    SIZING = ("resize", "assign")
     for fn in tu.find(name="build_heap", record=rec):
-        g = cfgm.CFG(fn)
-        resets, appends, writes = [], [], []
-        for z in fn.nodes():
-            if "callee" not in z:
-                continue
-            nm = z["callee"]["name"]
-            on_heap = z.get("member_call") and kids(z) and match.this_field(kids(z)[0]) == "heap_"
-            if z["k"] == "CXXOperatorCallExpr" and z.get("op") == "=" and kids(z) and match.this_field(kids(z)[0]) == "heap_":
-                resets.append(z)
-            elif on_heap and nm in RESET:
-                resets.append(z)
-            elif on_heap and nm in APPEND:
-                appends.append(z)
-            elif nm in ("back_inserter", "inserter", "front_inserter") and kids(z) and match.this_field(kids(z)[0]) == "heap_":
-                appends.append(z)
-            elif nm in ("copy", "move", "copy_n", "uninitialized_copy") and any(
-                    match.this_field(kids(q)[0]) == "heap_" for a in kids(z) for q in ir.walk(a)
-                    if "callee" in q and q["callee"]["name"] == "begin" and q.get("member_call") and kids(q)):
-                writes.append(z)
-        tag = "%s::build_heap(%s)" % (rec.split("::")[-1], fn.params[0]["ty"].replace("std::", "")[:30])
-        bad = None
-        for a in appends:
-            pa = g.pos_deep(a)
-            if pa is not None and g.path_from_entry_avoiding(pa, [g.pos_deep(r) for r in resets if g.pos_deep(r) is not None]) is not None:
-                bad = a
-        # a sized overwrite needs resize(source size) in front of the copy
-        for w in writes:
-            pw = g.pos_deep(w)
-            if not any(r["callee"]["name"] == "resize" and g.dominates(g.pos_deep(r), pw) for r in resets if "callee" in r):
-                bad = bad or w
-        if bad is not None:
-            ck.violation("BUILD-REPLACES", fn.qname, tag, "build_heap() adds the new keys to heap_ without discarding what it held (%s): a heap that was "
-                         "used before keeps its old elements" % dtable.describe(bad)[:70], fn.nloc(bad))
-        elif not (resets or appends or writes):
-            ck.violation("BUILD-REPLACES", fn.qname, tag + ":none", "build_heap() never stores the keys into heap_", fn.loc)
-        else:
-            ck.ok("BUILD-REPLACES", tag, "heap_ is replaced (%s)" % ", ".join(sorted({(r.get("callee") or {}).get("name", "=") for r in resets})))
+        def one(fn=fn):
+            g = cfgm.CFG(fn)
+            resets, appends, writes, delegates, other = [], [], [], [], []
+            for z in fn.nodes():
+                if "callee" not in z:
+                    continue
+                nm = z["callee"]["name"]
+                on_heap = z.get("member_call") and kids(z) and match.this_field(kids(z)[0]) == "heap_"
+                if z["k"] == "CXXOperatorCallExpr" and z.get("op") == "=" and kids(z) and match.this_field(kids(z)[0]) == "heap_":
+                    resets.append(z)
+                elif on_heap and nm in RESET:
+                    resets.append(z)
+                elif on_heap and nm in APPEND:
+                    appends.append(z)
+                elif nm in ("back_inserter", "inserter", "front_inserter") and kids(z) and match.this_field(kids(z)[0]) == "heap_":
+                    appends.append(z)
+                elif nm in ("copy", "move", "copy_n", "uninitialized_copy") and any(
+                        match.this_field(kids(q)[0]) == "heap_" for a in kids(z) for q in ir.walk(a)
+                        if "callee" in q and q["callee"]["name"] == "begin" and q.get("member_call") and kids(q)):
+                    writes.append(z)
+                elif z.get("member_call") and kids(z) and strip_casts(kids(z)[0])["k"] == "This":
+                    cal = tu.by_did.get(z["callee"].get("did"))
+                    if nm == "build_heap" and cal is not None and cal.did != fn.did:
+                        delegates.append(z)
+                    elif nm == "clear" and cal is not None and cal.body is not None and "heap_" in written_fields(tu, cal):
+                        resets.append(z)
+                    elif nm != "heapify" and (cal is None or cal.body is None or "heap_" in written_fields(tu, cal)):
+                        other.append(z)
+                elif on_heap and not z["callee"].get("const") and nm not in ("begin", "end", "reserve", "data", "size", "empty", "capacity", "front", "back", "operator[]", "at"):
+                    other.append(z)
+            tag = "%s::build_heap(%s)" % (rec.split("::")[-1], fn.params[0]["ty"].replace("std::", "")[:30])
+            bad = None
+            pres = [g.pos_deep(r) for r in resets if g.pos_deep(r) is not None]
+            for a in appends:
+                pa = g.pos_deep(a)
+                if pa is not None and g.path_from_entry_avoiding(pa, pres) is not None:
+                    bad = a            # evidence: a path from the entry reaches the append without emptying heap_
+            # a sized overwrite needs resize(source size) in front of the copy
+            for w in writes:
+                pw = g.pos_deep(w)
+                sized = [g.pos_deep(r) for r in resets if r["callee"]["name"] in SIZING and g.pos_deep(r) is not None]
+                if pw is None:
+                    raise dtable.Undecidable("%s: position of the copy into heap_ not found in the CFG" % fn.nloc(w))
+                if g.path_from_entry_avoiding(pw, sized) is None:
+                    continue
+                unsized = [r for r in resets if r["callee"]["name"] not in SIZING + ("clear",) and g.pos_deep(r) is not None and
+                           (g.reachable(g.pos_deep(r), pw))]
+                if unsized or other or delegates:
+                    raise dtable.Undecidable("%s: keys are copied over heap_.begin(); cannot tell whether heap_ has the size of the source at that point (%s)"
+                                             % (fn.nloc(w), dtable.describe((unsized or other or delegates)[0])[:60]))
+                bad = bad or w         # evidence: on a path to the copy heap_ still has its old size (or none)
+            if bad is not None:
+                ck.violation("BUILD-REPLACES", fn.qname, tag, "build_heap() adds the new keys to heap_ without discarding what it held (%s): a heap that was "
+                             "used before keeps its old elements" % dtable.describe(bad)[:70], fn.nloc(bad))
+            elif delegates and not (appends or writes):
+                ck.ok("BUILD-REPLACES", tag, "delegates to another build_heap() overload")
+            elif not (resets or appends or writes):
+                # nothing recognised that stores the keys: a finding only if nothing else touches heap_ either
+                touch = [y for y in fn.nodes() if y["k"] == "MemberExpr" and match.this_field(y) == "heap_"]
+                if touch or other:
+                    raise dtable.Undecidable("%s: the way build_heap() stores the keys into heap_ is not understood (line %s)"
+                                             % (fn.loc, (touch or other)[0].get("l")))
+                ck.violation("BUILD-REPLACES", fn.qname, tag + ":none", "build_heap() never stores the keys into heap_", fn.loc)
+            else:
+                ck.ok("BUILD-REPLACES", tag, "heap_ is replaced (%s)" % ", ".join(sorted({(r.get("callee") or {}).get("name", "=") for r in resets})))
+        ck.guarded(one)
 
 
 def check_clear_complete(ck, tu, rec, const_fields=(), method="clear"):
     clears = tu.find(name=method, record=rec)
     for cl in clears:
-        mut = set()
-        for fn in tu.find(record=rec):
-            if fn.rtargs != cl.rtargs or fn.kind in ("ctor", "dtor") or fn.name == method:
-                continue
-            if fn.d.get("copy_assign") or fn.d.get("move_assign"):
-                continue
-            mut |= written_fields(tu, fn)
-        mut -= set(const_fields)
-        got = written_fields(tu, cl)
-        miss = sorted(mut - got)
-        if miss:
-            ck.violation("CLEAR-COMPLETE", cl.qname, "missing:" + ",".join(miss),
-                         "%s() does not re-establish %s, which the mutators change: the next use starts from stale state" % (method, ", ".join(miss)), cl.loc)
-        else:
-            ck.ok("CLEAR-COMPLETE", inst_tag(cl) + "::" + method, "resets all %d mutable state fields (%s)" % (len(mut), ",".join(sorted(mut))))
+        def one(cl=cl):
+            mut = set()
+            for fn in tu.find(record=rec):
+                if fn.rtargs != cl.rtargs or fn.kind in ("ctor", "dtor") or fn.name == method:
+                    continue
+                if fn.d.get("copy_assign") or fn.d.get("move_assign"):
+                    continue
+                mut |= written_fields(tu, fn)
+            mut -= set(const_fields)
+            opaque = []
+            got = written_fields(tu, cl, opaque=opaque)
+            miss = sorted(mut - got)
+            if miss and opaque:
+                # "clear() does not touch the field" is only established if everything clear() does is understood
+                raise dtable.Undecidable("%s: %s() is not seen to re-establish %s, but it contains an operation whose effect is not understood: %s"
+                                         % (cl.loc, method, ", ".join(miss), opaque[0]))
+            if miss:
+                ck.violation("CLEAR-COMPLETE", cl.qname, "missing:" + ",".join(miss),
+                             "%s() does not re-establish %s, which the mutators change: the next use starts from stale state" % (method, ", ".join(miss)), cl.loc)
+            else:
+                ck.ok("CLEAR-COMPLETE", inst_tag(cl) + "::" + method, "resets all %d mutable state fields (%s)" % (len(mut), ",".join(sorted(mut))))
+        ck.guarded(one)
 
 
 def check_rank(ck, tu):
+    """(not part of run(): IntegerRank is enforced by the library's own static_asserts)  rank_of_int / int_at_rank are the
+    identity for unsigned types and the sign-bit flip for signed ones"""
     for fn in tu.find(name="rank_of_int"):
         inv = [f for f in tu.find(name="int_at_rank") if f.rtargs == fn.rtargs]
-        if not inv:
+        if not inv or fn.body is None or inv[0].body is None:
             continue
         signed = not fn.rtargs[0].startswith("unsigned")
-        rec = tu.record(fn.record, None) if False else None
-        # structural: both are  use_identity_ ? cast(x) : cast(x) ^ sign_bit_   (xor on the same constant)
+
         def xors(f):
             return [y for y in ir.walk(f.body) if match.binop(y, ("^",)) and strip_casts(y)["k"] == "BinaryOperator"]
         a, b = xors(fn), xors(inv[0])
@@ -713,15 +1692,25 @@ def check_rank(ck, tu):
         for y in ir.walk(fn.body):
             if y["k"] == "ConditionalOperator":
                 ident = const_int(kids(y)[0])
-        okk = ident is not None and bool(ident) == (not signed) and (not signed or (len(a) == 1 and len(b) == 1))
-        if signed and a:
+        if ident is None:
+            raise dtable.Undecidable("%s: rank_of_int is not of the form  identity ? cast(i) : cast(i) ^ sign_bit" % fn.loc)
+        wrong = None
+        if bool(ident) != (not signed):
+            wrong = "the %s branch is selected for a %s type" % ("identity" if ident else "sign-bit flip", "signed" if signed else "unsigned")
+        elif signed:
             bits = 8 * {"int": 4, "long": 8, "long long": 8, "short": 2, "signed char": 1, "char": 1}.get(fn.rtargs[0], 0)
-            sb = [const_int(z) for z in kids(strip_casts(a[0])) if const_int(z) is not None]
-            okk = okk and bits and (1 << (bits - 1)) in sb
-        if okk:
+            if len(a) != 1 or len(b) != 1 or not bits:
+                raise dtable.Undecidable("%s: sign-bit flip of rank_of_int / int_at_rank not understood" % fn.loc)
+            for f, xs in ((fn, a), (inv[0], b)):
+                sb = [const_int(z) for z in kids(strip_casts(xs[0])) if const_int(z) is not None]
+                if not sb:
+                    raise dtable.Undecidable("%s: constant of the sign-bit flip not evaluated" % f.loc)
+                if (1 << (bits - 1)) not in sb:
+                    wrong = "%s flips with %#x instead of the sign bit %#x" % (f.name, sb[0], 1 << (bits - 1))
+        if wrong is None:
             ck.ok("RANK-TABLE", "IntegerRank<%s>" % fn.rtargs[0], "identity for unsigned / sign-bit flip for signed, inverse uses the same constant")
         else:
-            ck.violation("RANK-TABLE", fn.qname, fn.rtargs[0].replace(" ", "_"), "key ranking is not the order-preserving sign-bit flip", fn.loc)
+            ck.violation("RANK-TABLE", fn.qname, fn.rtargs[0].replace(" ", "_"), "key ranking is not the order-preserving sign-bit flip: " + wrong, fn.loc)
 
 
 BITS = {"unsigned char": 8, "signed char": 8, "char": 8, "unsigned short": 16, "short": 16, "unsigned int": 32, "int": 32, "unsigned": 32,
@@ -771,27 +1760,28 @@ def run(ck):
         "every mutable state field; build_heap() replaces the contents (BUILD-REPLACES); the bit-index arithmetic of the bucket computation uses the width "
         "of the type clz() really sees, for 8..64-bit keys (CLZ-WIDTH). Heap order over histories and the bucket arithmetic are not decided.")
     arities = ["2"] if ck.tier == "quick" else ["2", "5"]
+    # each rule instance runs guarded: one that cannot be decided (exit 2 in the end) does not hide what the others find
     for ar in arities:
         tu = ir.extract("witness/C13_heaps.cpp", defines=["WITNESS_ARITY=" + ar])
         for rec in (DH, AH):
             for fn in tu.find(record=rec):
                 if fn.name in ("sift_up", "sift_down", "heapify"):
-                    check_decisions(ck, fn)
-            check_index_inverse(ck, tu, rec)
+                    ck.guarded(lambda fn=fn: check_decisions(ck, fn))
+            ck.guarded(lambda rec=rec: check_index_inverse(ck, tu, rec))
         for fn in tu.find(record=AH):
             if fn.kind in ("ctor", "dtor") or fn.d.get("const"):
                 continue
-            check_handle_coupled(ck, fn)
-            check_handle_reset(ck, fn)
+            ck.guarded(lambda fn=fn: check_handle_coupled(ck, fn))
+            ck.guarded(lambda fn=fn: check_handle_reset(ck, fn))
             if fn.name == "heapify":
-                check_handle_grow(ck, fn)
-        check_clear_complete(ck, tu, AH)
-        check_radix_coupled(ck, tu)
-        check_clear_complete(ck, tu, RH)
-        check_clear_complete(ck, tu, "tlx::radix_heap_detail::BitArrayRecursive", method="clear_all")
-        check_build_replaces(ck, tu, "tlx::DAryHeap")
-        check_build_replaces(ck, tu, AH)
-        ck.require(check_clz_width(ck, tu) >= 4, "the bucket computation of the radix heap (clz of the key difference) was not found for the narrow key types")
+                ck.guarded(lambda fn=fn: check_handle_grow(ck, fn))
+        ck.guarded(lambda: check_clear_complete(ck, tu, AH))
+        ck.guarded(lambda: check_radix_coupled(ck, tu))
+        ck.guarded(lambda: check_clear_complete(ck, tu, RH))
+        ck.guarded(lambda: check_clear_complete(ck, tu, "tlx::radix_heap_detail::BitArrayRecursive", method="clear_all"))
+        ck.guarded(lambda: check_build_replaces(ck, tu, "tlx::DAryHeap"))
+        ck.guarded(lambda: check_build_replaces(ck, tu, AH))
+        ck.guarded(lambda: ck.require(check_clz_width(ck, tu) >= 4, "the bucket computation of the radix heap (clz of the key difference) was not found for the narrow key types"))
     m = len(arities)
     ck.floor("HEAP-DECISION", 12 * m)
     ck.floor("INDEX-INVERSE", 4 * m)
